@@ -7,23 +7,35 @@
    proved for every program of the fragment, every pair of related states, without any bound on the
    length of sequences or the nesting depth.  Builds on proofs/ExprCorrect.v (pure expressions).
 
-   The fragment ([sfrag rw V s V'], V / V' = the model's declared variables before / after):
+   The fragment ([sfrag rw IM V s V'], V / V' = the declared locals before / after, IM = the immediate
+   letters the behaviour uses, rw = the width the machine gives every operand handle):
      RdV = e;  RxxV = e;  PdV = e; ...   assignment of a pfrag expression to a destination register operand
+     RxV += e;  RxV -= e;  RxV *= e;     compound assignment to a register operand (accumulate)
      x = e;   x += e;  x -= e;  x *= e;  assignment / compound assignment to a declared integer local
      T x = e;                            declaration with initialiser of a FRESH name
      mem_store_<s|u><w>(a, v);           memory store
      JUMP(e);                            jump (the RzIL locals jump_flag / jump_target mirror C's jump state)
      ;   NOP   {}   { s1 ... sn }        empty statements, blocks and sequences of any length
      if (e) s1   if (e) s1 else s2       with pfrag condition and declaration-free branches of the fragment
+   where the expressions e (ExprCorrect.pfrag) read declared locals, literals, SOURCE REGISTER operands
+   (RsV RtV RuV RvV RwV, read-write RxV RyV RzV, pairs RssV .. RxxV, classes R P C M), DESTINATION
+   operands read back (RdV ReV RddV: the value written so far, else 0), .new operands (PuN NsN ...) and
+   IMMEDIATES (siV uiV ...).
    Main results: [stmt_correct] (lower_stmt), [stmts_correct] (lower_stmts), [tlower_correct] and
-   [tlower_correct_fuel] (tlower_info / tlower, including the final wrapping), [Example.prog_simulated].
+   [tlower_correct_fuel] (tlower_info / tlower, including the final wrapping: the immediate prologue and
+   the finalisation of register operands against the final register table), [Example.prog_simulated],
+   [Example.prog2_simulated] (registers and an immediate), [Example.prog3_simulated] (predicates, pairs, .new),
+   [Example.prog4_simulated] (a local named like an unused immediate letter), [Example.prog5_simulated] (accumulate).
 
-   Outside the fragment, and why (see also Example.redeclaration_counterexample):
+   Outside the fragment, and why (see also Example.redeclaration_counterexample,
+   Example.imm_local_clash_refuted, Example.nreg_not_new_refuted):
    - `T x;` without initialiser, and declarations inside the branches of an `if`: the model's variable
      table is flat and keeps such a variable, while at run time it holds no value (or is not declared at
      all when the other branch ran); ExprCorrect.rel demands a value for every declared variable;
    - re-declaration of a name: the model mistranslates it (counterexample below);
-   - reading register operands, immediates, loads, calls, ++/--: not in ExprCorrect.pfrag. *)
+   - a local named like an immediate the behaviour uses (the fragment is parametrised by that set of
+     letters, IM): the model keeps immediates and locals in one table and confuses them (counterexample below);
+   - loads, calls, ++/--: not in ExprCorrect.pfrag. *)
 From Coq Require Import ZArith NArith List Bool String Ascii Lia.
 From RZ.lib Require Import BV PyHeap.
 From RZ.sem Require Import RzIL CSem.
@@ -35,37 +47,7 @@ Local Open Scope string_scope.
 Local Open Scope Z_scope.
 Local Open Scope list_scope.
 
-(* ================================================================== Layer 0: strings, association lists *)
-Lemma append_empty_r s : s +++ "" = s.
-Proof. induction s as [|c s IH]; cbn [append]; [reflexivity | rewrite IH; reflexivity]. Qed.
-
-Lemma substring_full s : substring 0 (String.length s) s = s.
-Proof. induction s as [|c s IH]; cbn [String.length substring]; [reflexivity | rewrite IH; reflexivity]. Qed.
-
-Lemma substring_0_0 s : substring 0 0 s = "".
-Proof. destruct s; reflexivity. Qed.
-
-Lemma reg_name_of_reg n : reg_name_of ("$reg:" +++ n) = Some n.
-Proof.
-  unfold reg_name_of, reg_prefix. cbn [append substring String.length].
-  rewrite substring_0_0. cbn [String.eqb Ascii.eqb Bool.eqb Nat.sub].
-  rewrite Nat.sub_0_r, substring_full. reflexivity.
-Qed.
-
-Lemma lookup_app {A} x (l1 l2 : list (string * A)) :
-  lookup x (l1 ++ l2) = match lookup x l1 with Some v => Some v | None => lookup x l2 end.
-Proof.
-  induction l1 as [|[y v] t IH]; cbn [app lookup]; [reflexivity|].
-  destruct (String.eqb x y); [reflexivity | exact IH].
-Qed.
-
-Lemma lookup_none_existsb {A} x (l : list (string * A)) :
-  lookup x l = None -> existsb (fun p => String.eqb (fst p) x) l = false.
-Proof.
-  induction l as [|[y v] t IH]; cbn [lookup existsb fst]; [reflexivity|].
-  rewrite (String.eqb_sym y x). destruct (String.eqb x y); [discriminate|]. exact IH.
-Qed.
-
+(* ================================================================== Layer 0: arithmetic *)
 (* ------------------------------------------------------------------ truncation to a narrower width *)
 Lemma wrap_wrap_le w W z : okw w -> okw W -> (w <= W)%N -> wrap w (wrap W z) = wrap w z.
 Proof.
@@ -174,219 +156,174 @@ Section Fin.
 End Fin.
 
 (* ================================================================== Layer 2: the register table of the model state *)
-(* destination register operands of the fragment: classes R P C M with any access letters *)
-Definition dest_cls (cls : string) : Prop := cls = "R" \/ cls = "P" \/ cls = "C" \/ cls = "M".
-Definition cls_w (cls : string) : N := if String.eqb cls "P" then 8%N else 32%N.
-Definition dest_w (cls : string) (acc : access) : N := if is_pair acc then (cls_w cls * 2)%N else cls_w cls.
-
-Lemma dest_cls_widths cls : dest_cls cls ->
-  reg_width cls = Some (cls_w cls) /\ class_width cls = Some (cls_w cls) /\ String.eqb cls "N" = false.
-Proof. intros [-> | [-> | [-> | ->]]]; repeat split; reflexivity. Qed.
-
-Lemma dest_w_okw cls acc : dest_cls cls -> okw (dest_w cls acc).
-Proof. intros [-> | [-> | [-> | ->]]]; unfold dest_w; destruct (is_pair acc); vm_compute; auto 6. Qed.
-
-Lemma access_pair letters acc : access_of_letters letters = Some acc -> is_pair acc = is_pair_letters letters.
-Proof.
-  unfold access_of_letters. cbn [existsb].
-  repeat match goal with
-         | |- context [String.eqb letters ?s] =>
-             destruct (String.eqb_spec letters s) as [->|?];
-             [cbn; intros H; injection H as <-; reflexivity|]
-         end.
-  cbn. discriminate.
-Qed.
-
-Lemma name_inj cls cls' l l' : dest_cls cls -> dest_cls cls' -> cls +++ l = cls' +++ l' -> cls = cls' /\ l = l'.
-Proof. intros [-> | [-> | [-> | ->]]] [-> | [-> | [-> | ->]]]; cbn [append]; intros H; inversion H; auto. Qed.
-
-Definition entry_ok (n : string) (ri : reginfo) : Prop :=
-  exists cls letters acc, dest_cls cls /\ access_of_letters letters = Some acc /\ n = cls +++ letters /\
-    r_op ri = RIsa cls (substring 0 1 letters) false /\ r_ty ri = ty_int true (dest_w cls acc) /\ r_pc ri = false.
-Definition regs_ok (regs : list (string * reginfo)) : Prop :=
-  forall n ri, lookup_reg_info n regs = Some ri -> entry_ok n ri.
-Definition regs_le (regs regs' : list (string * reginfo)) : Prop :=
-  forall n ri, lookup_reg_info n regs = Some ri ->
-    exists ri', lookup_reg_info n regs' = Some ri' /\ r_op ri' = r_op ri /\ r_pc ri' = r_pc ri.
-
-Lemma regs_le_refl r : regs_le r r.
-Proof. intros n ri H. exists ri. auto. Qed.
-Lemma regs_le_trans a b c : regs_le a b -> regs_le b c -> regs_le a c.
-Proof.
-  intros H1 H2 n ri H. destruct (H1 n ri H) as [ri1 [L1 [O1 P1]]]. destruct (H2 n ri1 L1) as [ri2 [L2 [O2 P2]]].
-  exists ri2. split; [exact L2|]. split; congruence.
-Qed.
-Lemma regs_ok_nil : regs_ok [].
-Proof. intros n ri H. discriminate H. Qed.
-
-Lemma lookup_reg_info_app n l k v :
-  lookup_reg_info n (l ++ [(k, v)]) =
-  match lookup_reg_info n l with Some r => Some r | None => if String.eqb k n then Some v else None end.
-Proof.
-  induction l as [|[k0 v0] t IH]; cbn [app lookup_reg_info]; [reflexivity|].
-  destruct (String.eqb k0 n); [reflexivity | exact IH].
-Qed.
-
-Lemma lookup_reg_info_update n name v l :
-  lookup_reg_info n (update_reg_info name v l) =
-  match lookup_reg_info n l with None => None | Some r => if String.eqb name n then Some v else Some r end.
-Proof.
-  induction l as [|[k o] t IH]; cbn [update_reg_info lookup_reg_info]; [reflexivity|].
-  destruct (String.eqb_spec k name) as [->|Hkn]; cbn [lookup_reg_info].
-  - destruct (String.eqb name n); [reflexivity | destruct (lookup_reg_info n t); reflexivity].
-  - destruct (String.eqb_spec k n) as [->|Hk]; [|exact IH].
-    destruct (String.eqb_spec name n) as [->|_]; [congruence | reflexivity].
-Qed.
-
-(* the parts of the model state that no statement of the fragment changes, and the emptiness flag *)
-Definition frame (s s' : lstate) : Prop :=
-  st_pending s' = st_pending s /\ st_hcount s' = st_hcount s /\ st_imms s' = st_imms s /\
-  st_removed s' = st_removed s /\ (st_nonempty s = true -> st_nonempty s' = true).
-Lemma frame_refl s : frame s s. Proof. unfold frame; tauto. Qed.
-Lemma frame_trans a b c : frame a b -> frame b c -> frame a c.
-Proof. unfold frame. intuition congruence. Qed.
-Lemma st_same_frame s s' : st_same s s' -> frame s s'.
-Proof. unfold st_same, frame. tauto. Qed.
-
-(* holder.is_empty() is false as soon as anything was registered *)
-Definition started (st : lstate) : Prop := st_nonempty st = true \/ (st_vars st = [] /\ st_regs st = []).
-
-Lemma lower_reg_ok cls letters acc st : dest_cls cls -> access_of_letters letters = Some acc -> regs_ok (st_regs st) ->
-  exists st', lower_reg cls letters false st =
-                OK (mkpv (PRaw ("$reg:" +++ cls +++ letters)) (ty_int true (dest_w cls acc)) (KReg (cls +++ letters)) [], st') /\
-    st_vars st' = st_vars st /\ frame st st' /\ regs_ok (st_regs st') /\ regs_le (st_regs st) (st_regs st') /\
-    (started st -> st_nonempty st' = true) /\
-    exists ri, lookup_reg_info (cls +++ letters) (st_regs st') = Some ri.
-Proof.
-  intros Hc Ha Hr. destruct (dest_cls_widths cls Hc) as [Hrw [_ HN]].
-  unfold lower_reg. rewrite Ha, Hrw. cbv zeta. rewrite HN, append_empty_r.
-  change (if is_pair acc then (cls_w cls * 2)%N else cls_w cls) with (dest_w cls acc).
-  unfold add_reg, bind, get.
-  destruct (lookup_reg_info (cls +++ letters) (st_regs st)) as [old|] eqn:El.
-  - exists st. split.
-    { unfold ret, reg_value. destruct (Hr _ _ El) as [cls' [l' [acc' [Hc' [Ha' [Hn [_ [Ht _]]]]]]]].
-      destruct (name_inj _ _ _ _ Hc Hc' Hn) as [<- <-]. rewrite Ha in Ha'. injection Ha' as <-. rewrite Ht. reflexivity. }
-    split; [reflexivity|]. split; [apply frame_refl|]. split; [exact Hr|]. split; [apply regs_le_refl|].
-    split; [|eauto].
-    intros [Hs | [_ Hs]]; [exact Hs|]. rewrite Hs in El. discriminate El.
-  - eexists. split; [reflexivity|]. cbn [st_vars st_regs st_nonempty].
-    split; [reflexivity|]. split; [unfold frame; cbn; tauto|].
-    split.
-    { intros n ri. rewrite lookup_reg_info_app. destruct (lookup_reg_info n (st_regs st)) eqn:Eln.
-      - intros H; injection H as <-. exact (Hr _ _ Eln).
-      - destruct (String.eqb_spec (cls +++ letters) n) as [<-|_]; [|discriminate].
-        intros H; injection H as <-. exists cls, letters, acc. cbn. auto 10. }
-    split.
-    { intros n ri H. exists ri. rewrite lookup_reg_info_app, H. auto. }
-    split; [reflexivity|].
-    rewrite lookup_reg_info_app, El, String.eqb_refl. eauto.
-Qed.
+(* (the table invariants regs_ok / regs_le / st_ext and Lower.lower_reg are treated in ExprCorrect) *)
+Lemma st_ext_pending s s' : st_ext s s' -> st_pending s = [] -> st_pending s' = [].
+Proof. intros [H _] Hp. congruence. Qed.
+Lemma st_ext_regs s s' : st_ext s s' -> regs_le (st_regs s) (st_regs s').
+Proof. intros H. apply H. Qed.
+Lemma st_ext_imms s s' : st_ext s s' -> incl (st_imms s) (st_imms s').
+Proof. intros H. apply H. Qed.
+Lemma st_ext_nonempty s s' : st_ext s s' -> st_nonempty s = true -> st_nonempty s' = true.
+Proof. intros H. apply H. Qed.
+Lemma lst_ok_regs_ok IM V st : lst_ok IM V st -> regs_ok (st_regs st).
+Proof. intros H. apply H. Qed.
 
 Lemma add_write_property_ok name st : regs_ok (st_regs st) ->
   exists st', add_write_property name st = OK (tt, st') /\
-    st_vars st' = st_vars st /\ frame st st' /\ regs_ok (st_regs st') /\ regs_le (st_regs st) (st_regs st').
+    st_vars st' = st_vars st /\ st_imms st' = st_imms st /\ st_ext st st' /\ regs_ok (st_regs st').
 Proof.
   intros Hr. unfold add_write_property, bind, get.
   destruct (lookup_reg_info name (st_regs st)) as [ri|] eqn:El.
-  - eexists. split; [reflexivity|]. cbn [st_vars st_regs].
-    split; [reflexivity|]. split; [unfold frame; cbn; tauto|].
+  - destruct (Hr _ _ El) as [c [l [a [nw [H1 [H2 [H3 [H4 [H5 [H6 [H7 [H8 H9]]]]]]]]]]]].
+    set (acc' := match r_acc ri with
+                 | AR => ARW | APR => APRW
+                 | AUnknown => if String.eqb (first_char name) "P" then APW else AW
+                 | a => a end).
+    assert (Hw : write_only acc' = write_only (r_acc ri) /\ acc' <> AUnknown).
+    { unfold acc'. destruct (r_acc ri); try (split; [reflexivity | discriminate]). exfalso; apply H9; reflexivity. }
+    eexists. split; [reflexivity|]. cbn [st_vars st_regs st_imms].
+    split; [reflexivity|]. split; [reflexivity|].
     split.
+    + unfold st_ext; cbn [st_pending st_hcount st_imms st_removed st_nonempty st_regs]. repeat split; auto using incl_refl.
+      intros n r H. rewrite lookup_reg_info_update, H.
+      destruct (String.eqb_spec name n) as [<-|_]; [|eauto 10].
+      rewrite El in H. injection H as <-. eexists. split; [reflexivity|]. cbn [r_op r_pc r_new r_acc]. fold acc'. tauto.
     + intros n r. rewrite lookup_reg_info_update. destruct (lookup_reg_info n (st_regs st)) as [r0|] eqn:Eln; [|discriminate].
       destruct (String.eqb_spec name n) as [<-|_].
       * intros H; injection H as <-. rewrite El in Eln. injection Eln as <-.
-        destruct (Hr _ _ El) as [c [l [a [H1 [H2 [H3 [H4 [H5 H6]]]]]]]]. exists c, l, a. cbn. auto 10.
+        exists c, l, a, nw. cbn [r_op r_ty r_pc r_new r_acc]. fold acc'. destruct Hw as [Hw1 Hw2]. rewrite Hw1. auto 12.
       * intros H; injection H as <-. exact (Hr _ _ Eln).
-    + intros n r H. rewrite lookup_reg_info_update, H.
-      destruct (String.eqb_spec name n) as [<-|_]; [|eauto].
-      rewrite El in H. injection H as <-. eexists. split; [reflexivity|]. cbn. auto.
-  - exists st. split; [reflexivity|]. split; [reflexivity|]. split; [apply frame_refl|]. split; [exact Hr | apply regs_le_refl].
+  - exists st. split; [reflexivity|]. split; [reflexivity|]. split; [reflexivity|]. split; [apply st_ext_refl | exact Hr].
 Qed.
 
-Definition norem (rem : list string) : Prop := forall n, existsb (String.eqb (reg_prefix +++ n)) rem = false.
-
-Lemma fin_op_dest R rem regs cls letters ri : dest_cls cls -> regs_ok regs ->
-  lookup_reg_info (cls +++ letters) regs = Some ri -> regs_le regs R -> norem rem ->
-  fin_op R rem (RParam ("$reg:" +++ cls +++ letters)) = RIsa cls (substring 0 1 letters) false.
+(* the destination handle of an assignment, finalised *)
+Lemma fin_op_dest R rem regs cls letters acc ri : dest_cls cls -> access_of_letters letters = Some acc -> regs_ok regs ->
+  lookup_reg_info (rname cls letters false) regs = Some ri -> regs_le regs R -> norem rem ->
+  fin_op R rem (RParam ("$reg:" +++ rname cls letters false)) = RIsa cls (substring 0 1 letters) false.
 Proof.
-  intros Hc Hr Hl Hle Hrem. unfold fin_op. rewrite reg_name_of_reg. unfold reg_handle.
-  destruct (Hle _ _ Hl) as [ri' [L' [O' P']]]. rewrite L', Hrem.
-  destruct (Hr _ _ Hl) as [cls' [l' [acc' [Hc' [_ [Hn [Ho [_ Hp]]]]]]]].
-  destruct (name_inj _ _ _ _ Hc Hc' Hn) as [<- <-]. rewrite P', Hp, O', Ho. reflexivity.
+  intros Hc Ha Hr Hl Hle Hrem. unfold fin_op. rewrite reg_name_of_reg. unfold reg_handle.
+  destruct (Hle _ _ Hl) as [ri' [L' [O' [P' _]]]]. rewrite L', Hrem.
+  destruct (Hr _ _ Hl) as [cls' [l' [acc' [new' [Hc' [Ha' [Hn [Ho [_ [Hp _]]]]]]]]]].
+  destruct (rname_inj _ _ _ _ _ _ (reg_cls_any false _ (or_introl Hc)) (reg_cls_any _ _ Hc') (access_in_table _ _ Ha) (access_in_table _ _ Ha') Hn)
+    as [<- [<- <-]].
+  rewrite P', Hp, O', Ho. apply rop_dest. exact Hc.
 Qed.
 
 (* ================================================================== Layer 3: the state relation for statements *)
-(* [rel] of ExprCorrect (every declared integer local holds the same in-range value on both sides), and:
-   the IL state has no local the model does not know as declared, except the two locals JUMP sets, which
-   mirror the C jump state and are not names of declared variables; the registers written so far, and the
-   bytes stored so far, are the same lists on both sides; the C routine has not returned *)
-Definition reserved (x : string) : Prop := x = "jump_flag" \/ x = "jump_target".
+(* [rel] of ExprCorrect (every declared integer local holds the same in-range value on both sides; the
+   registers written so far are the same list; same operand environment), and: the IL state has no local
+   the model does not know as declared, except the two locals JUMP sets, which mirror the C jump state,
+   and the locals of the immediates, which hold the encoded immediate once the prologue has set them;
+   none of these is the name of a declared variable; the bytes stored so far are the same list on both
+   sides; the C routine has not returned *)
+Definition reserved (IM : string -> bool) (x : string) : Prop :=
+  x = "jump_flag" \/ x = "jump_target" \/ IM x = true \/ imm_cname x = true.
+(* the two locals of JUMP are not immediate letters *)
+Definition im_ok (IM : string -> bool) : Prop := IM "jump_flag" = false /\ IM "jump_target" = false.
+Lemma im_ok_letters : im_ok imm_letter.
+Proof. split; reflexivity. Qed.
 Definition jrel (cs : cstate) (ms : mstate) : Prop :=
   match cs_jump cs with
   | None => lookup "jump_flag" (locals ms) = None /\ lookup "jump_target" (locals ms) = None
   | Some t => lookup "jump_flag" (locals ms) = Some (VB true) /\ lookup "jump_target" (locals ms) = Some (VBv 32 t) /\
               0 <= t < pow2 32
   end.
-Definition srel (V : list (string * option vtype)) (cs : cstate) (ms : mstate) : Prop :=
-  rel V cs ms /\ (forall x, lookup x V = None -> ~ reserved x -> lookup x (locals ms) = None) /\
-  cs_regw cs = rnew ms /\ cs_mem cs = mem ms /\ cs_ret cs = None /\
-  (forall x, reserved x -> lookup x V = None) /\ jrel cs ms.
+Definition srel (IM : string -> bool) (E : cenv) (V : list (string * option vtype)) (cs : cstate) (ms : mstate) : Prop :=
+  rel IM E V cs ms /\ (forall x, lookup x V = None -> ~ reserved IM x -> lookup x (locals ms) = None) /\
+  cs_mem cs = mem ms /\ cs_ret cs = None /\
+  (forall x, reserved IM x -> lookup x V = None) /\ jrel cs ms /\
+  (forall l, IM l = true ->
+     lookup l (locals ms) = None \/ lookup l (locals ms) = Some (VBv 32 (wrap 32 (imms ms l)))).
 
-Lemma srel_ret V cs ms : srel V cs ms -> cs_ret cs = None.
+Lemma srel_ret IM E V cs ms : srel IM E V cs ms -> cs_ret cs = None.
 Proof. intros H. apply H. Qed.
 
-Lemma srel_set_reg V cs ms r z : srel V cs ms -> srel V (set_regw cs r z) (set_reg ms r z).
+Lemma not_reserved_imm IM x : ~ reserved IM x -> IM x = false /\ imm_cname x = false.
 Proof.
-  intros [H1 [H2 [H3 [H4 [H5 [H6 H7]]]]]]. split; [exact H1|]. split; [exact H2|].
-  cbn [cs_regw set_regw rnew set_reg cs_mem mem cs_ret]. split; [congruence|]. auto.
+  intros H. split.
+  - destruct (IM x) eqn:Ei; [|reflexivity]. exfalso. apply H. right. right. left. exact Ei.
+  - destruct (imm_cname x) eqn:Ei; [|reflexivity]. exfalso. apply H. right. right. right. exact Ei.
+Qed.
+
+Lemma srel_set_reg IM E V cs ms r z : srel IM E V cs ms -> srel IM E V (set_regw cs r z) (set_reg ms r z).
+Proof.
+  intros [[R1 [R2 [R3 [R4 [R5 R6]]]]] [H2 [H3 [H4 [H5 [H6 H7]]]]]]. split; [|split; [exact H2|]].
+  - unfold rel. cbn [cs_vars cs_regw set_regw locals rnew rold rnew0 imms set_reg]. rewrite R2. auto 10.
+  - cbn [cs_mem set_regw mem set_reg cs_ret]. auto 10.
 Qed.
 
 Lemma ty_int_inj sg w sg' w' : ty_int sg w = ty_int sg' w' -> sg = sg' /\ w = w'.
 Proof. unfold ty_int. intros H. injection H. auto. Qed.
 
 (* a local that is not one of the jump locals is set on both sides *)
-Lemma jrel_set cs ms x cv v : ~ reserved x -> jrel cs ms -> jrel (CSem.set_var cs x cv) (set_local ms x v).
+Lemma jrel_set IM cs ms x cv v : ~ reserved IM x -> jrel cs ms -> jrel (CSem.set_var cs x cv) (set_local ms x v).
 Proof.
   intros Hx. unfold jrel. cbn [cs_jump CSem.set_var locals set_local lookup].
   destruct (String.eqb_spec "jump_flag" x) as [<-|_]; [exfalso; apply Hx; left; reflexivity|].
-  destruct (String.eqb_spec "jump_target" x) as [<-|_]; [exfalso; apply Hx; right; reflexivity|].
+  destruct (String.eqb_spec "jump_target" x) as [<-|_]; [exfalso; apply Hx; right; left; reflexivity|].
   auto.
 Qed.
 
-Lemma srel_set_var V cs ms x sg w z : srel V cs ms -> lookup x V = Some (Some (ty_int sg w)) -> 0 <= z < pow2 w ->
-  srel V (CSem.set_var cs x ((sg, w), z)) (set_local ms x (VBv w z)).
+Lemma imm_cname_neq x l : imm_cname x = false -> String.eqb ("imm:" +++ l) x = false.
+Proof. intros H. destruct (String.eqb_spec ("imm:" +++ l) x) as [<-|_]; [|reflexivity]. rewrite imm_cname_imm in H. discriminate H. Qed.
+Lemma imm_letter_neq (IM : string -> bool) x l : IM x = false -> IM l = true -> String.eqb l x = false.
+Proof. intros Hx Hl. destruct (String.eqb_spec l x) as [->|_]; [congruence | reflexivity]. Qed.
+
+(* the parts of [rel] and [srel] about immediates and the operand environment, when a non-reserved local is set *)
+Lemma srel_set_var IM E V cs ms x sg w z : srel IM E V cs ms -> lookup x V = Some (Some (ty_int sg w)) -> 0 <= z < pow2 w ->
+  srel IM E V (CSem.set_var cs x ((sg, w), z)) (set_local ms x (VBv w z)).
 Proof.
-  intros [H1 [H2 [H3 [H4 [H5 [H6 H7]]]]]] Hx Hz.
-  assert (Hnr : ~ reserved x) by (intros Hr; rewrite (H6 x Hr) in Hx; discriminate Hx).
+  intros [[R1 [R2 [R3 [R4 [R5 R6]]]]] [H2 [H3 [H4 [H5 [H6 H7]]]]]] Hx Hz.
+  assert (Hnr : ~ reserved IM x) by (intros Hr; rewrite (H5 x Hr) in Hx; discriminate Hx).
+  destruct (not_reserved_imm IM x Hnr) as [Hil Hic].
   split; [|split].
-  - intros y sg' w' Hy Hw'. cbn [cs_vars CSem.set_var locals set_local lookup fst snd].
-    destruct (String.eqb_spec y x) as [->|Hne].
-    + assert (Hy' : ty_int sg w = ty_int sg' w') by congruence.
-      apply ty_int_inj in Hy'. destruct Hy' as [<- <-]. exists z. auto.
-    + exact (H1 y sg' w' Hy Hw').
+  - unfold rel. cbn [cs_vars cs_regw CSem.set_var locals rnew rold rnew0 imms set_local fst snd]. split; [|split; [exact R2|split; [exact R3|split; [exact R4|split; [exact R5|]]]]].
+    + intros y sg' w' Hy Hw'. cbn [lookup].
+      destruct (String.eqb_spec y x) as [->|Hne].
+      * assert (Hy' : ty_int sg w = ty_int sg' w') by congruence.
+        apply ty_int_inj in Hy'. destruct Hy' as [<- <-]. exists z. auto.
+      * exact (R1 y sg' w' Hy Hw').
+    + intros l Hl. cbn [lookup]. rewrite (imm_cname_neq x l Hic). exact (R6 l Hl).
   - intros y Hy Hyr. cbn [locals set_local lookup].
     destruct (String.eqb_spec y x) as [->|Hne]; [congruence | exact (H2 y Hy Hyr)].
-  - cbn [cs_regw CSem.set_var rnew set_local cs_mem mem cs_ret]. repeat (split; [assumption|]).
-    apply jrel_set; assumption.
+  - cbn [CSem.set_var cs_mem mem set_local cs_ret]. repeat (split; [assumption|]).
+    split; [apply (jrel_set IM); assumption|].
+    intros l Hl. cbn [locals set_local lookup imms]. rewrite (imm_letter_neq IM x l Hil Hl). exact (H7 l Hl).
 Qed.
 
-Lemma srel_decl V cs ms x sg w z : srel V cs ms -> lookup x V = None -> ~ reserved x -> 0 <= z < pow2 w ->
-  srel (V ++ [(x, Some (ty_int sg w))]) (CSem.set_var cs x ((sg, w), z)) (set_local ms x (VBv w z)).
+Lemma srel_decl IM E V cs ms x sg w z : srel IM E V cs ms -> lookup x V = None -> ~ reserved IM x -> 0 <= z < pow2 w ->
+  srel IM E (V ++ [(x, Some (ty_int sg w))]) (CSem.set_var cs x ((sg, w), z)) (set_local ms x (VBv w z)).
 Proof.
-  intros [H1 [H2 [H3 [H4 [H5 [H6 H7]]]]]] Hx Hnr Hz. split; [|split].
-  - intros y sg' w' Hy Hw'. cbn [cs_vars CSem.set_var locals set_local lookup fst snd].
-    rewrite lookup_app in Hy. destruct (lookup y V) as [r|] eqn:Ely.
-    + injection Hy as ->. destruct (String.eqb_spec y x) as [->|Hne]; [congruence|]. exact (H1 y sg' w' Ely Hw').
-    + cbn [lookup] in Hy. destruct (String.eqb_spec y x) as [->|Hne]; [|discriminate].
-      assert (Hy' : ty_int sg w = ty_int sg' w') by congruence.
-      apply ty_int_inj in Hy'. destruct Hy' as [<- <-]. exists z. auto.
+  intros [[R1 [R2 [R3 [R4 [R5 R6]]]]] [H2 [H3 [H4 [H5 [H6 H7]]]]]] Hx Hnr Hz.
+  destruct (not_reserved_imm IM x Hnr) as [Hil Hic].
+  split; [|split].
+  - unfold rel. cbn [cs_vars cs_regw CSem.set_var locals rnew rold rnew0 imms set_local fst snd]. split; [|split; [exact R2|split; [exact R3|split; [exact R4|split; [exact R5|]]]]].
+    + intros y sg' w' Hy Hw'. cbn [lookup].
+      rewrite lookup_app in Hy. destruct (lookup y V) as [r|] eqn:Ely.
+      * injection Hy as ->. destruct (String.eqb_spec y x) as [->|Hne]; [congruence|]. exact (R1 y sg' w' Ely Hw').
+      * cbn [lookup] in Hy. destruct (String.eqb_spec y x) as [->|Hne]; [|discriminate].
+        assert (Hy' : ty_int sg w = ty_int sg' w') by congruence.
+        apply ty_int_inj in Hy'. destruct Hy' as [<- <-]. exists z. auto.
+    + intros l Hl. cbn [lookup]. rewrite (imm_cname_neq x l Hic). exact (R6 l Hl).
   - intros y Hy Hyr. rewrite lookup_app in Hy. cbn [locals set_local lookup] in *.
     destruct (lookup y V) eqn:Ely; [discriminate|].
     destruct (String.eqb_spec y x) as [->|Hne]; [discriminate | exact (H2 y Ely Hyr)].
-  - cbn [cs_regw CSem.set_var rnew set_local cs_mem mem cs_ret]. repeat (split; [assumption|]).
-    split; [|apply jrel_set; assumption].
-    intros y Hyr. rewrite lookup_app, (H6 y Hyr). cbn [lookup].
-    destruct (String.eqb_spec y x) as [->|_]; [contradiction | reflexivity].
+  - cbn [CSem.set_var cs_mem mem set_local cs_ret]. repeat (split; [assumption|]).
+    split; [|split; [apply (jrel_set IM); assumption|]].
+    + intros y Hyr. rewrite lookup_app, (H5 y Hyr). cbn [lookup].
+      destruct (String.eqb_spec y x) as [->|_]; [contradiction | reflexivity].
+    + intros l Hl. cbn [locals set_local lookup imms]. rewrite (imm_letter_neq IM x l Hil Hl). exact (H7 l Hl).
 Qed.
+
+(* the prologue entries that have been executed stay executed *)
+Lemma imms_done_set_local IM J ms x v : IM x = false -> imms_done IM J ms -> imms_done IM J (set_local ms x v).
+Proof.
+  intros Hx H l Hl Hin. cbn [locals set_local lookup imms]. rewrite (imm_letter_neq IM x l Hx Hl). exact (H l Hl Hin).
+Qed.
+Lemma imms_done_set_reg IM J ms r z : imms_done IM J ms -> imms_done IM J (set_reg ms r z).
+Proof. intros H l Hl Hin. exact (H l Hl Hin). Qed.
+Lemma imms_done_set_mem IM J ms m : imms_done IM J ms -> imms_done IM J (set_mem ms m).
+Proof. intros H l Hl Hin. exact (H l Hl Hin). Qed.
 
 (* ================================================================== Layer 4: the fragment *)
 (* the declaration specifiers of the fragment: the cast types of ExprCorrect (intN_t / uintN_t / int /
@@ -394,35 +331,40 @@ Qed.
 Definition decl_ty (ts : tyspec) (sg : bool) (w : N) : Prop :=
   cast_ty ts sg w \/ (exists b, ts = [TS_sizeN b sg] /\ w = (b * 8)%N /\ okw w).
 
-(* [sfrag rw V s V']: statement s of the fragment, lowered with declared variables V, leaves V'.
+(* [sfrag rw IM V s V']: statement s of the fragment, lowered with declared variables V, leaves V'.
    rw is the register-width environment of the IL semantics: a destination register operand must
    have the width the machine gives its operand handle. *)
-Inductive sfrag (rw : regwidth) : list (string * option vtype) -> cstmt -> list (string * option vtype) -> Prop :=
+Inductive sfrag (rw : regwidth) (IM : string -> bool) : list (string * option vtype) -> cstmt -> list (string * option vtype) -> Prop :=
 | sf_asg_reg V cls letters acc e :                    (* RdV = e;  RxxV = e;  PdV = e; ... *)
     dest_cls cls -> access_of_letters letters = Some acc ->
     rw (RIsa cls (substring 0 1 letters) false) = dest_w cls acc ->
-    pfrag V e -> sfrag rw V (SExpr (EAssign AAssign (EOp (OReg cls letters)) e)) V
+    pfrag rw IM V e -> sfrag rw IM V (SExpr (EAssign AAssign (EOp (OReg cls letters)) e)) V
 | sf_asg_var V x sg w e :                             (* x = e;  for a declared local *)
     lookup x V = Some (Some (ty_int sg w)) -> okw w ->
-    pfrag V e -> sfrag rw V (SExpr (EAssign AAssign (EOp (OIdent x)) e)) V
+    pfrag rw IM V e -> sfrag rw IM V (SExpr (EAssign AAssign (EOp (OIdent x)) e)) V
 | sf_casg_var V a x sg w e :                          (* x += e;  x -= e;  x *= e;  for a declared local *)
     (a = AAdd \/ a = ASub \/ a = AMul) ->
     lookup x V = Some (Some (ty_int sg w)) -> okw w ->
-    pfrag V e -> sfrag rw V (SExpr (EAssign a (EOp (OIdent x)) e)) V
+    pfrag rw IM V e -> sfrag rw IM V (SExpr (EAssign a (EOp (OIdent x)) e)) V
+| sf_casg_reg V a cls letters acc e :                 (* RxV += e;  RxV -= e;  RxV *= e;  (also RdV, PxV, RxxV ...) *)
+    (a = AAdd \/ a = ASub \/ a = AMul) ->
+    dest_cls cls -> access_of_letters letters = Some acc ->
+    rw (RIsa cls (substring 0 1 letters) false) = dest_w cls acc ->
+    pfrag rw IM V e -> sfrag rw IM V (SExpr (EAssign a (EOp (OReg cls letters)) e)) V
 | sf_decl V ts sg w x e :                             (* T x = e;  for a fresh name *)
-    decl_ty ts sg w -> lookup x V = None -> ~ reserved x ->
-    pfrag V e -> sfrag rw V (SDecl ts x (Some e)) (V ++ [(x, Some (ty_int sg w))])
-| sf_empty V : sfrag rw V SEmpty V                    (* ; *)
-| sf_nop V : sfrag rw V SNop V
+    decl_ty ts sg w -> lookup x V = None -> ~ reserved IM x ->
+    pfrag rw IM V e -> sfrag rw IM V (SDecl ts x (Some e)) (V ++ [(x, Some (ty_int sg w))])
+| sf_empty V : sfrag rw IM V SEmpty V                    (* ; *)
+| sf_nop V : sfrag rw IM V SNop V
 | sf_store V sg w a v :                               (* mem_store_<s|u><w>(a, v); *)
-    okw w -> pfrag V a -> pfrag V v -> sfrag rw V (SStore sg w (ECons a (ECons v ENil))) V
-| sf_jump V e : pfrag V e -> sfrag rw V (SJump e) V   (* JUMP(e); *)
-| sf_block V l V' : sfrags rw V l V' -> sfrag rw V (SBlock l) V'      (* { ... } *)
-| sf_if V c t : pfrag V c -> sfrag rw V t V -> sfrag rw V (SIf c t None) V
-| sf_ifelse V c t f : pfrag V c -> sfrag rw V t V -> sfrag rw V f V -> sfrag rw V (SIf c t (Some f)) V
-with sfrags (rw : regwidth) : list (string * option vtype) -> cstmts -> list (string * option vtype) -> Prop :=
-| sfs_nil V : sfrags rw V SNil V
-| sfs_cons V s V1 l V2 : sfrag rw V s V1 -> sfrags rw V1 l V2 -> sfrags rw V (SCons s l) V2.
+    okw w -> pfrag rw IM V a -> pfrag rw IM V v -> sfrag rw IM V (SStore sg w (ECons a (ECons v ENil))) V
+| sf_jump V e : pfrag rw IM V e -> sfrag rw IM V (SJump e) V   (* JUMP(e); *)
+| sf_block V l V' : sfrags rw IM V l V' -> sfrag rw IM V (SBlock l) V'      (* { ... } *)
+| sf_if V c t : pfrag rw IM V c -> sfrag rw IM V t V -> sfrag rw IM V (SIf c t None) V
+| sf_ifelse V c t f : pfrag rw IM V c -> sfrag rw IM V t V -> sfrag rw IM V f V -> sfrag rw IM V (SIf c t (Some f)) V
+with sfrags (rw : regwidth) (IM : string -> bool) : list (string * option vtype) -> cstmts -> list (string * option vtype) -> Prop :=
+| sfs_nil V : sfrags rw IM V SNil V
+| sfs_cons V s V1 l V2 : sfrag rw IM V s V1 -> sfrags rw IM V1 l V2 -> sfrags rw IM V (SCons s l) V2.
 
 Scheme sfrag_mut := Minimality for sfrag Sort Prop
 with sfrags_mut := Minimality for sfrags Sort Prop.
@@ -433,6 +375,11 @@ Section StmtCorrect.
   Variables (subsigs : list subsig) (macs : list macsig) (cret : option vtype) (hstart : N).
   Local Notation cfg := (mkcfg all_fixes subsigs macs [] cret hstart).
   Variable rw : regwidth.
+  (* the immediates the behaviour uses *)
+  Variable IM : string -> bool.
+  Hypothesis HIM : im_ok IM.
+  (* the register table / removed names the effect is finalised against, and the executed immediate prologue *)
+  Variables (R : list (string * reginfo)) (rem : list string) (J : list effect).
   Variable ilsubs : subenv.
   Variable E : cenv.
   Variable csub : csubs.
@@ -448,8 +395,8 @@ Section StmtCorrect.
   (* the conversion of an assignment's source to the (integer) type of its destination *)
   Lemma cast_imm_ok dest src st sg w : okw w -> pv_ty dest = ty_int sg w -> goodpv src ->
     exists src', cast_operands cfg true dest src st = OK ((dest, src'), st) /\ pv_ty src' = ty_int sg w /\
-      forall ms v, sem rw ms src v ->
-        exists z, 0 <= z < pow2 w /\ eval rw ms [] (pv_term src') = Some (VBv w z) /\
+      forall ms v, sem rw R rem ms src v ->
+        exists z, 0 <= z < pow2 w /\ eval rw ms [] (fin_pure R rem (pv_term src')) = Some (VBv w z) /\
                   conv (sg, w) (cval_of (pv_ty src) v) = ((sg, w), z).
   Proof.
     intros Hw Hd Hg. unfold cast_operands, bind, ty_eq. rewrite Hd.
@@ -459,13 +406,13 @@ Section StmtCorrect.
       destruct Hg as [[Ht _] | [s0 [w0 [Hw0 [Ht _]]]]]; rewrite Ht in Eeq.
       + exfalso. unfold vtype_eqb in Eeq. cbn in Eeq. okw_cases Hw; discriminate.
       + apply vtype_eqb_int in Eeq. destruct Eeq as [<- <-]. split; [exact Ht|].
-        intros ms v Hs. destruct (sem_int rw ms src v sg w Ht Hs) as [z [-> [Hz He]]].
+        intros ms v Hs. destruct (sem_int rw R rem ms src v sg w Ht Hs) as [z [-> [Hz He]]].
         exists z. split; [exact Hz|]. split; [exact He|]. rewrite Ht. cbn [cval_of vt_sg ty_int].
         apply (conv_same ((sg, w), z)). split; auto.
-    - destruct (init_a_cast_ok subsigs macs cret hstart rw sg w src st Hw Hg) as [p' [H1 [_ [H3 [_ H5]]]]].
+    - destruct (init_a_cast_ok subsigs macs cret hstart rw R rem sg w src st Hw Hg) as [p' [H1 [_ [H3 [_ H5]]]]].
       rewrite H1. exists p'. split; [reflexivity|]. split; [exact H3|].
       intros ms v Hs. destruct (H5 ms v Hs) as [v' [Hs' Hc]].
-      destruct (sem_int rw ms p' v' sg w H3 Hs') as [z [-> [Hz He]]].
+      destruct (sem_int rw R rem ms p' v' sg w H3 Hs') as [z [-> [Hz He]]].
       exists z. split; [exact Hz|]. split; [exact He|]. rewrite <- Hc, H3. reflexivity.
   Qed.
 
@@ -654,28 +601,28 @@ Section StmtCorrect.
   (* ------------------------------------------------------------------ the invariant *)
   Definition plain_item (i : item) : Prop := match i with IEff _ | IAsg _ _ => True | _ => False end.
 
-  (* the simulation diagram, for the C executor cex (cexec on a statement / cexecs on a list) *)
+  (* the simulation diagram, for the C executor cex (cexec on a statement / cexecs on a list); J is the
+     immediate prologue that has been executed (any list containing the entries the model has created) *)
   Definition sim (V V' : list (string * option vtype)) (eff : effect) (cex : nat -> cstate -> option cstate) : Prop :=
-    forall cs ms fuel cs', srel V cs ms -> cex fuel cs = Some cs' ->
-      exists ms', runs rw ilsubs eff ms ms' /\ srel V' cs' ms'.
+    forall cs ms fuel cs', srel IM E V cs ms -> imms_done IM J ms -> cex fuel cs = Some cs' ->
+      exists ms', runs rw ilsubs eff ms ms' /\ srel IM E V' cs' ms' /\ imms_done IM J ms'.
 
-  Definition post (V' : list (string * option vtype)) (st st' : lstate) (items : list item)
+  Definition post (V V' : list (string * option vtype)) (st st' : lstate) (items : list item)
                   (cex : nat -> cstate -> option cstate) : Prop :=
-    st_vars st' = V' /\ frame st st' /\ regs_ok (st_regs st') /\ regs_le (st_regs st) (st_regs st') /\
-    Forall plain_item items /\
-    forall R rem, regs_le (st_regs st') R -> norem rem ->
-      sim (st_vars st) V' (fin_eff R rem (seqn (flat_map item_effects items))) cex.
+    lst_ok IM V' st' /\ st_ext st st' /\ Forall plain_item items /\
+    (regs_le (st_regs st') R -> norem rem -> incl (st_imms st') J ->
+      sim V V' (fin_eff R rem (seqn (flat_map item_effects items))) cex).
 
   Definition SInv (V : list (string * option vtype)) (s : cstmt) (V' : list (string * option vtype)) : Prop :=
-    forall st, st_vars st = V -> st_pending st = [] -> regs_ok (st_regs st) ->
+    forall st, lst_ok IM V st -> st_pending st = [] ->
       exists items st', lower_stmt cfg s st = OK (items, st') /\
-        post V' st st' items (fun fuel cs => cexec E csub xi fuel cs s) /\
+        post V V' st st' items (fun fuel cs => cexec E csub xi fuel cs s) /\
         (started st -> st_nonempty st' = true).
 
   Definition SsInv (V : list (string * option vtype)) (l : cstmts) (V' : list (string * option vtype)) : Prop :=
-    forall st, st_vars st = V -> st_pending st = [] -> regs_ok (st_regs st) ->
+    forall st, lst_ok IM V st -> st_pending st = [] ->
       exists items st', lower_stmts cfg l st = OK (items, st') /\
-        post V' st st' items (fun fuel cs => cexecs E csub xi fuel cs l) /\
+        post V V' st st' items (fun fuel cs => cexecs E csub xi fuel cs l) /\
         (started st -> l <> SNil -> st_nonempty st' = true).
 
   Lemma mk_assign_reg dest src st st' name : vt_const (pv_ty dest) = false -> pv_kind dest = KReg name ->
@@ -690,91 +637,101 @@ Section StmtCorrect.
 
   Ltac step H := rewrite H; cbv beta iota.
 
+  (* the expression of a statement: ExprCorrect.expr_inv, with the premises of its semantic half discharged
+     from those of the statement's simulation *)
+  Lemma expr_sim V e st : pfrag rw IM V e -> lst_ok IM V st ->
+    exists pv st2, lower_expr cfg e st = OK (IPure pv, st2) /\ st_ext st st2 /\ lst_ok IM V st2 /\ goodpv pv /\
+      forall st3, st_ext st2 st3 -> regs_le (st_regs st3) R -> norem rem -> incl (st_imms st3) J ->
+      forall cs ms, rel IM E V cs ms -> imms_done IM J ms ->
+        exists ilv, sem rw R rem ms pv ilv /\
+          forall fuel cs' cv, ceval E csub xi fuel cs e = Some (cs', cv) -> cs' = cs /\ cv = cval_of (pv_ty pv) ilv.
+  Proof.
+    intros Hfrag Hok.
+    destruct (expr_inv subsigs macs cret hstart rw R rem IM E csub xi V e Hfrag st Hok) as [pv [st2 [L2 [X2 [K2 [G2 [_ [_ Hsem]]]]]]]].
+    exists pv, st2. repeat (split; [assumption|]).
+    intros st3 X3 HR Hrem HJ cs ms Hrel Himm.
+    destruct (Hsem (regs_le_trans _ _ _ (st_ext_regs _ _ X3) HR) Hrem cs ms Hrel
+                   (imms_done_incl _ _ _ _ (incl_tran (st_ext_imms _ _ X3) HJ) Himm)) as [ilv [Sv Hcv]].
+    exists ilv. split; [exact Sv|]. intros fuel cs' cv Hce. exact (Hcv fuel cs' cv Hce I).
+  Qed.
+
   (* ------------------------------------------------------------------ RdV = e; *)
   Lemma sinv_asg_reg V cls letters acc e :
     dest_cls cls -> access_of_letters letters = Some acc ->
     rw (RIsa cls (substring 0 1 letters) false) = dest_w cls acc ->
-    pfrag V e -> SInv V (SExpr (EAssign AAssign (EOp (OReg cls letters)) e)) V.
+    pfrag rw IM V e -> SInv V (SExpr (EAssign AAssign (EOp (OReg cls letters)) e)) V.
   Proof.
-    intros Hc Ha Hrw Hfrag st HV Hp Hr.
-    destruct (lower_reg_ok cls letters acc st Hc Ha Hr) as [st1 [L1 [V1 [F1 [R1 [Le1 [N1 [ri1 Lk1]]]]]]]].
-    assert (HV1 : st_vars st1 = V) by congruence.
-    destruct (expr_inv subsigs macs cret hstart rw E csub xi V e Hfrag st1 HV1) as [pv [st2 [L2 [S2 [G2 [_ [_ Hsem]]]]]]].
-    pose proof S2 as [S2v [S2r [S2p [_ [_ [_ S2n]]]]]].
-    pose (dest := mkpv (PRaw ("$reg:" +++ cls +++ letters)) (ty_int true (dest_w cls acc)) (KReg (cls +++ letters)) []).
+    intros Hc Ha Hrw Hfrag st Hok Hp.
+    destruct (lower_reg_ok cls letters acc false st (or_introl Hc) Ha (lst_ok_regs_ok _ _ _ Hok)) as [st1 [L1 [V1 [I1 [X1 [R1 [N1 [ri1 Lk1]]]]]]]].
+    assert (Hok1 : lst_ok IM V st1) by (eapply lst_ok_regs; eassumption).
+    destruct (expr_sim V e st1 Hfrag Hok1) as [pv [st2 [L2 [X2 [Hok2 [G2 Hsem]]]]]].
+    set (n := rname cls letters false) in *.
+    pose (dest := mkpv (PRaw ("$reg:" +++ n)) (ty_int true (dest_w cls acc)) (KReg n) []).
     destruct (cast_imm_ok dest pv st2 true (dest_w cls acc) (dest_w_okw cls acc Hc) eq_refl G2) as [src' [C1 [T1 Hc1]]].
-    assert (R2 : regs_ok (st_regs st2)) by (rewrite S2r; exact R1).
-    destruct (add_write_property_ok (cls +++ letters) st2 R2) as [st3 [W1 [V3 [F3 [R3 Le3]]]]].
-    assert (P3 : st_pending st3 = []).
-    { destruct F3 as [-> _]. rewrite S2p. destruct F1 as [-> _]. exact Hp. }
-    exists [IAsg (mkle (EWriteReg (RParam ("$reg:" +++ cls +++ letters)) (rd src')) (pv_tmps dest ++ pv_tmps src') false) src'], st3.
+    destruct (add_write_property_ok n st2 (lst_ok_regs_ok _ _ _ Hok2)) as [st3 [W1 [V3 [I3 [X3 R3]]]]].
+    assert (Hok3 : lst_ok IM V st3) by (eapply lst_ok_regs; eassumption).
+    assert (X13 : st_ext st st3) by (eapply st_ext_trans; [exact X1|]; eapply st_ext_trans; eassumption).
+    assert (P3 : st_pending st3 = []) by (eapply st_ext_pending; eassumption).
+    exists [IAsg (mkle (EWriteReg (RParam ("$reg:" +++ n)) (rd src')) (pv_tmps dest ++ pv_tmps src') false) src'], st3.
     split.
     { rewrite lower_stmt_expr, lower_expr_asg, lower_expr_op. cbn [lower_operand]. unfold asg_tail, bind, ret.
       step L1. step L2. fold dest. step C1. cbn [compound_src]. unfold ret.
-      rewrite (mk_assign_reg dest src' st2 st3 (cls +++ letters) eq_refl eq_refl W1).
+      rewrite (mk_assign_reg dest src' st2 st3 n eq_refl eq_refl W1).
       rewrite chk_nil by exact P3. reflexivity. }
-    assert (F13 : frame st st3).
-    { eapply frame_trans; [exact F1|]. eapply frame_trans; [apply st_same_frame; exact S2 | exact F3]. }
-    assert (Le : regs_le (st_regs st) (st_regs st3)).
-    { eapply regs_le_trans; [exact Le1|]. rewrite <- S2r. exact Le3. }
     split.
-    { split; [congruence|]. split; [exact F13|]. split; [exact R3|]. split; [exact Le|].
-      split; [repeat constructor|].
-      intros R rem HR Hrem cs ms fuel cs' Hrel Hce. rewrite HV in Hrel.
-      destruct Hrel as [Hrel [Hloc [Hregs [Hmem [Hret [Hres Hj]]]]]].
-      destruct (Hsem cs ms Hrel) as [ilv [Sv Hcv]].
+    { split; [exact Hok3|]. split; [exact X13|]. split; [repeat constructor|].
+      intros HR Hrem HJ cs ms fuel cs' Hrel Himm Hce.
+      pose proof Hrel as [Hrel0 [Hloc [Hmem [Hret [Hres [Hj Himl]]]]]].
+      destruct (Hsem st3 X3 HR Hrem HJ cs ms Hrel0 Himm) as [ilv [Sv Hcv]].
       destruct (Hc1 ms ilv Sv) as [z [Hz [Ez Cz]]].
       destruct (cexec_asg_inv fuel cs _ e cs' Hret Hce) as [k [s1 [vr [lv [Ee [Eo ->]]]]]].
-      destruct (Hcv k s1 vr Ee I) as [-> ->].
+      destruct (Hcv k s1 vr Ee) as [-> ->].
       destruct (operand_lval_reg cs cls letters acc Hc Ha) as [fb Eo']. rewrite Eo' in Eo. injection Eo as <-.
       cbn [write_lval]. rewrite Cz. cbn [snd].
-      exists (set_reg ms (RIsa cls (substring 0 1 letters) false) z). split.
-      - cbn [flat_map item_effects le_empty le_term app seqn fin_eff].
-        assert (Lk3 : exists ri3, lookup_reg_info (cls +++ letters) (st_regs st3) = Some ri3).
-        { rewrite <- S2r in Lk1. destruct (Le3 _ _ Lk1) as [ri3 [H3 _]]. eauto. }
-        destruct Lk3 as [ri3 Lk3].
-        rewrite (fin_op_dest R rem (st_regs st3) cls letters ri3 Hc R3 Lk3 HR Hrem).
-        eapply runs_writereg; [apply fin_pure_eval; exact Ez | exact Hrw].
-      - apply srel_set_reg. repeat split; assumption. }
-    intros Hst. destruct F3 as [_ [_ [_ [_ F3]]]]. apply F3. apply S2n. exact (N1 Hst).
+      exists (set_reg ms (RIsa cls (substring 0 1 letters) false) z). split; [|split; [apply srel_set_reg; exact Hrel | apply imms_done_set_reg; exact Himm]].
+      cbn [flat_map item_effects le_empty le_term app seqn fin_eff].
+      assert (Lk3 : exists ri3, lookup_reg_info n (st_regs st3) = Some ri3).
+      { destruct (st_ext_regs _ _ X2 _ _ Lk1) as [ri2 [H2 _]]. destruct (st_ext_regs _ _ X3 _ _ H2) as [ri3 [H3 _]]. eauto. }
+      destruct Lk3 as [ri3 Lk3]. unfold n in *.
+      rewrite (fin_op_dest R rem (st_regs st3) cls letters acc ri3 Hc Ha R3 Lk3 HR Hrem).
+      eapply runs_writereg; [exact Ez | exact Hrw]. }
+    intros Hst. eapply st_ext_nonempty; [exact X3|]. eapply st_ext_nonempty; [exact X2|]. exact (N1 Hst).
   Qed.
 
   (* ------------------------------------------------------------------ x = e; *)
   Lemma sinv_asg_var V x sg w e :
     lookup x V = Some (Some (ty_int sg w)) -> okw w ->
-    pfrag V e -> SInv V (SExpr (EAssign AAssign (EOp (OIdent x)) e)) V.
+    pfrag rw IM V e -> SInv V (SExpr (EAssign AAssign (EOp (OIdent x)) e)) V.
   Proof.
-    intros Hx Hw Hfrag st HV Hp Hr.
-    destruct (expr_inv subsigs macs cret hstart rw E csub xi V e Hfrag st HV) as [pv [st2 [L2 [S2 [G2 [_ [_ Hsem]]]]]]].
-    pose proof S2 as [S2v [S2r [S2p [_ [_ [_ S2n]]]]]].
+    intros Hx Hw Hfrag st Hok Hp.
+    destruct (lst_ok_local IM V st x _ Hok Hx) as [Hxi Hxs].
+    destruct (expr_sim V e st Hfrag Hok) as [pv [st2 [L2 [X2 [Hok2 [G2 Hsem]]]]]].
     pose (dest := mkpv (PVarL x) (ty_int sg w) (if String.eqb (substring 0 5 x) "h_tmp" then KTmp x false else KVar x) []).
     destruct (cast_imm_ok dest pv st2 sg w Hw eq_refl G2) as [src' [C1 [T1 Hc1]]].
     exists [IAsg (mkle (ESetL x (rd src')) (pv_tmps dest ++ pv_tmps src') false) src'], st2.
     split.
     { rewrite lower_stmt_expr, lower_expr_asg, lower_expr_op. cbn [lower_operand cfg_params lookup].
-      unfold asg_tail, bind, ret, get. rewrite HV, Hx. cbv beta iota. step L2. fold dest. step C1.
+      unfold asg_tail, bind, ret, get. rewrite Hxs. cbv beta iota. step L2. fold dest. step C1.
       cbn [compound_src]. unfold ret.
       rewrite (mk_assign_var dest src' st2 x eq_refl).
       2:{ unfold dest. cbn [pv_kind]. destruct (String.eqb (substring 0 5 x) "h_tmp"); eauto. }
-      rewrite chk_nil by (rewrite S2p; exact Hp). reflexivity. }
+      rewrite chk_nil by (eapply st_ext_pending; eassumption). reflexivity. }
     split.
-    { split; [congruence|]. split; [apply st_same_frame; exact S2|]. split; [rewrite S2r; exact Hr|].
-      split; [rewrite S2r; apply regs_le_refl|]. split; [repeat constructor|].
-      intros R rem HR Hrem cs ms fuel cs' Hrel Hce. rewrite HV in Hrel.
-      pose proof Hrel as [Hrel0 [Hloc [Hregs [Hmem [Hret [Hres Hj]]]]]].
-      destruct (Hsem cs ms Hrel0) as [ilv [Sv Hcv]].
+    { split; [exact Hok2|]. split; [exact X2|]. split; [repeat constructor|].
+      intros HR Hrem HJ cs ms fuel cs' Hrel Himm Hce.
+      pose proof Hrel as [Hrel0 [Hloc [Hmem [Hret [Hres [Hj Himl]]]]]].
+      destruct (Hsem st2 (st_ext_refl _) HR Hrem HJ cs ms Hrel0 Himm) as [ilv [Sv Hcv]].
       destruct (Hc1 ms ilv Sv) as [z [Hz [Ez Cz]]].
       destruct (cexec_asg_inv fuel cs _ e cs' Hret Hce) as [k [s1 [vr [lv [Ee [Eo ->]]]]]].
-      destruct (Hcv k s1 vr Ee I) as [-> ->].
-      destruct (Hrel0 x sg w Hx Hw) as [v [Hcx [Hv Hmx]]].
+      destruct (Hcv k s1 vr Ee) as [-> ->].
+      destruct (proj1 Hrel0 x sg w Hx Hw) as [v [Hcx [Hv Hmx]]].
       cbn [operand_lval] in Eo. rewrite Hcx in Eo. injection Eo as <-.
       cbn [write_lval]. rewrite Cz.
-      exists (set_local ms x (VBv w z)). split.
-      - cbn [flat_map item_effects le_empty le_term app seqn fin_eff].
-        eapply runs_setl; [apply fin_pure_eval; exact Ez|].
-        right. exists (VBv w v). split; [exact Hmx | reflexivity].
-      - apply srel_set_var; assumption. }
-    intros [Hst | [Hst _]]; [exact (S2n Hst)|]. rewrite HV in Hst. rewrite Hst in Hx. discriminate Hx.
+      exists (set_local ms x (VBv w z)). split; [|split; [apply srel_set_var; assumption | apply imms_done_set_local; assumption]].
+      cbn [flat_map item_effects le_empty le_term app seqn fin_eff].
+      eapply runs_setl; [exact Ez|].
+      right. exists (VBv w v). split; [exact Hmx | reflexivity]. }
+    intros [Hst | [Hst _]]; [exact (st_ext_nonempty _ _ X2 Hst)|]. rewrite Hst in Hxs. discriminate Hxs.
   Qed.
 
   (* ------------------------------------------------------------------ x += e;  x -= e;  x *= e; *)
@@ -829,8 +786,8 @@ Section StmtCorrect.
   Lemma conv_back_ok src st sg w : okw w -> goodpv src ->
     exists src', (do eq <- ty_eq (ty_int sg w) (pv_ty src); if eq then ret src else init_a_cast cfg (ty_int sg w) src) st = OK (src', st) /\
       pv_ty src' = ty_int sg w /\ goodpv src' /\
-      forall ms v, sem rw ms src v ->
-        exists z, 0 <= z < pow2 w /\ eval rw ms [] (pv_term src') = Some (VBv w z) /\
+      forall ms v, sem rw R rem ms src v ->
+        exists z, 0 <= z < pow2 w /\ eval rw ms [] (fin_pure R rem (pv_term src')) = Some (VBv w z) /\
                   conv (sg, w) (cval_of (pv_ty src) v) = ((sg, w), z).
   Proof.
     intros Hw Hg. unfold bind, ty_eq.
@@ -840,13 +797,13 @@ Section StmtCorrect.
       pose proof Hg as [[Ht _] | [s0 [w0 [Hw0 [Ht _]]]]]; rewrite Ht in Eeq.
       + exfalso. unfold vtype_eqb in Eeq. cbn in Eeq. okw_cases Hw; discriminate.
       + apply vtype_eqb_int in Eeq. destruct Eeq as [<- <-]. split; [exact Ht|]. split; [exact Hg|].
-        intros ms v Hs. destruct (sem_int rw ms src v sg w Ht Hs) as [z [-> [Hz He]]].
+        intros ms v Hs. destruct (sem_int rw R rem ms src v sg w Ht Hs) as [z [-> [Hz He]]].
         exists z. split; [exact Hz|]. split; [exact He|]. rewrite Ht. cbn [cval_of vt_sg ty_int].
         apply (conv_same ((sg, w), z)). split; auto.
-    - destruct (init_a_cast_ok subsigs macs cret hstart rw sg w src st Hw Hg) as [p' [H1 [H2 [H3 [_ H5]]]]].
+    - destruct (init_a_cast_ok subsigs macs cret hstart rw R rem sg w src st Hw Hg) as [p' [H1 [H2 [H3 [_ H5]]]]].
       rewrite H1. exists p'. split; [reflexivity|]. split; [exact H3|]. split; [exact H2|].
       intros ms v Hs. destruct (H5 ms v Hs) as [v' [Hs' Hc]].
-      destruct (sem_int rw ms p' v' sg w H3 Hs') as [z [-> [Hz He]]].
+      destruct (sem_int rw R rem ms p' v' sg w H3 Hs') as [z [-> [Hz He]]].
       exists z. split; [exact Hz|]. split; [exact He|]. rewrite <- Hc, H3. reflexivity.
   Qed.
 
@@ -858,11 +815,12 @@ Section StmtCorrect.
   Lemma sinv_casg_var V a x sg w e :
     (a = AAdd \/ a = ASub \/ a = AMul) ->
     lookup x V = Some (Some (ty_int sg w)) -> okw w ->
-    pfrag V e -> SInv V (SExpr (EAssign a (EOp (OIdent x)) e)) V.
+    pfrag rw IM V e -> SInv V (SExpr (EAssign a (EOp (OIdent x)) e)) V.
   Proof.
-    intros Ha Hx Hw Hfrag st HV Hp Hr.
-    destruct (expr_inv subsigs macs cret hstart rw E csub xi V e Hfrag st HV) as [pv [st2 [L2 [S2 [G2 [_ [_ Hsem]]]]]]].
-    pose proof S2 as [S2v [S2r [S2p [_ [_ [_ S2n]]]]]].
+    intros Ha Hx Hw Hfrag st Hok Hp.
+    destruct (lst_ok_local IM V st x _ Hok Hx) as [Hxi Hxs].
+    destruct (expr_sim V e st Hfrag Hok) as [pv [st2 [L2 [X2 [Hok2 [G2 Hsem]]]]]].
+    assert (Hp2 : st_pending st2 = []) by (eapply st_ext_pending; eassumption).
     pose (kx := if String.eqb (substring 0 5 x) "h_tmp" then KTmp x false else KVar x).
     pose (dest := mkpv (PVarL x) (ty_int sg w) kx []).
     assert (Gd : goodpv dest).
@@ -871,8 +829,8 @@ Section StmtCorrect.
     (* the source converted to the type of x *)
     destruct (conv_back_ok pv st2 sg w Hw G2) as [src' [C1 [T1 [G1 Hc1]]]].
     (* both operands promoted *)
-    destruct (promotion_cast_ok subsigs macs cret hstart rw dest st2 Gd) as [pd [A1 [A2 [A3 [A4 [_ A5]]]]]].
-    destruct (promotion_cast_ok subsigs macs cret hstart rw src' st2 G1) as [ps [B1 [B2 [B3 [B4 [_ B5]]]]]].
+    destruct (promotion_cast_ok subsigs macs cret hstart rw R rem dest st2 Gd) as [pd [A1 [A2 [A3 [A4 [_ A5]]]]]].
+    destruct (promotion_cast_ok subsigs macs cret hstart rw R rem src' st2 G1) as [ps [B1 [B2 [B3 [B4 [_ B5]]]]]].
     rewrite T1 in B3, B4, B5. change (pv_ty dest) with (ty_int sg w) in A3, A4, A5.
     change (cty_of (ty_int sg w)) with (sg, w) in *.
     set (tp := promote (sg, w)) in *.
@@ -883,7 +841,7 @@ Section StmtCorrect.
     exists [IAsg (mkle (ESetL x (rd src2)) (pv_tmps dest ++ pv_tmps src2) false) src2], st2.
     split.
     { rewrite lower_stmt_expr, lower_expr_casg, lower_expr_op. cbn [lower_operand cfg_params lookup].
-      unfold casg_tail. unfold bind at 1. unfold bind at 1. unfold bind at 1. unfold get. rewrite HV, Hx. unfold ret at 1.
+      unfold casg_tail. unfold bind at 1. unfold bind at 1. unfold bind at 1. unfold get. rewrite Hxs. unfold ret at 1.
       unfold bind at 1. rewrite L2. unfold bind at 1. unfold ret at 1. unfold bind at 1. unfold ret at 1. cbv beta iota.
       fold kx. fold dest.
       assert (Hco : cast_operands cfg true dest pv st2 = OK ((dest, src'), st2)).
@@ -894,25 +852,24 @@ Section StmtCorrect.
       destruct Ha as [-> | [-> | ->]]; unfold bind at 1; rewrite Hco; cbv beta iota; unfold bind at 1; rewrite Hcs;
       cbn [fx cfg_fx fx_compound_conv all_fixes]; unfold bind at 1; change (pv_ty dest) with (ty_int sg w); rewrite D1;
       unfold bind; rewrite (mk_assign_var dest src2 st2 x eq_refl);
-      try (rewrite chk_nil by (rewrite S2p; exact Hp); reflexivity);
+      try (rewrite chk_nil by exact Hp2; reflexivity);
       unfold dest, kx; cbn [pv_kind]; destruct (String.eqb (substring 0 5 x) "h_tmp"); eauto. }
     split.
-    { split; [congruence|]. split; [apply st_same_frame; exact S2|]. split; [rewrite S2r; exact Hr|].
-      split; [rewrite S2r; apply regs_le_refl|]. split; [repeat constructor|].
-      intros R rem HR Hrem cs ms fuel cs' Hrel Hce. rewrite HV in Hrel.
-      pose proof Hrel as [Hrel0 [Hloc [Hregs [Hmem [Hret [Hres Hj]]]]]].
-      destruct (Hrel0 x sg w Hx Hw) as [v0 [Hcx [Hv0 Hmx]]].
-      assert (Sd : sem rw ms dest (VBv w v0)) by (split; [exact Hmx | apply shape_int; exact Hv0]).
-      destruct (Hsem cs ms Hrel0) as [ilv [Sv Hcv]].
+    { split; [exact Hok2|]. split; [exact X2|]. split; [repeat constructor|].
+      intros HR Hrem HJ cs ms fuel cs' Hrel Himm Hce.
+      pose proof Hrel as [Hrel0 [Hloc [Hmem [Hret [Hres [Hj Himl]]]]]].
+      destruct (proj1 Hrel0 x sg w Hx Hw) as [v0 [Hcx [Hv0 Hmx]]].
+      assert (Sd : sem rw R rem ms dest (VBv w v0)) by (split; [exact Hmx | apply shape_int; exact Hv0]).
+      destruct (Hsem st2 (st_ext_refl _) HR Hrem HJ cs ms Hrel0 Himm) as [ilv [Sv Hcv]].
       destruct (Hc1 ms ilv Sv) as [z1 [Hz1 [Ez1 Cz1]]].
-      assert (Ss : sem rw ms src' (VBv w z1)) by (split; [exact Ez1 | rewrite T1; apply shape_int; exact Hz1]).
+      assert (Ss : sem rw R rem ms src' (VBv w z1)) by (split; [exact Ez1 | rewrite T1; apply shape_int; exact Hz1]).
       destruct (A5 ms _ Sd) as [vd [Sd' Cd]]. destruct (B5 ms _ Ss) as [vs [Ss' Cs]].
-      destruct (sem_int rw ms pd vd _ _ A3 Sd') as [xd [-> [Hxd Ed]]].
-      destruct (sem_int rw ms ps vs _ _ B3 Ss') as [xs [-> [Hxs Es]]].
+      destruct (sem_int rw R rem ms pd vd _ _ A3 Sd') as [xd [-> [Hxd Ed]]].
+      destruct (sem_int rw R rem ms ps vs _ _ B3 Ss') as [xs [-> [Hxs' Es]]].
       rewrite A3 in Cd. rewrite B3 in Cs. cbn [cval_of vt_sg ty_int pv_ty dest] in Cd, Cs.
-      assert (S0 : sem rw ms src0 (VBv (snd tp) (wrap (snd tp) (cfun a xd xs)))).
+      assert (S0 : sem rw R rem ms src0 (VBv (snd tp) (wrap (snd tp) (cfun a xd xs)))).
       { split; [|unfold src0; cbn [pv_ty]; rewrite A3; apply shape_int; apply wrap_range].
-        unfold src0. cbn [pv_term eval]. unfold rd. rewrite Ed, Es, N.eqb_refl.
+        unfold src0. cbn [pv_term fin_pure eval]. unfold rd. rewrite Ed, Es, N.eqb_refl.
         destruct Ha as [-> | [-> | ->]]; reflexivity. }
       destruct (Hd1 ms _ S0) as [z [Hz [Ez Cz]]].
       unfold src0 in Cz. cbn [pv_ty] in Cz. rewrite A3 in Cz. cbn [cval_of vt_sg ty_int] in Cz.
@@ -921,7 +878,7 @@ Section StmtCorrect.
       { rewrite ceval_0 in Hce. discriminate Hce. }
       rewrite (ceval_casg k cs a (OIdent x) e Ha) in Hce.
       destruct (ceval E csub xi k cs e) as [[s1 vr]|] eqn:Ee; [|discriminate Hce].
-      destruct (Hcv k s1 vr Ee I) as [-> ->].
+      destruct (Hcv k s1 vr Ee) as [-> ->].
       cbn [operand_lval] in Hce. rewrite Hcx in Hce. cbn [read_lval] in Hce. rewrite Hcx in Hce.
       cbn [option_map fst write_lval] in Hce.
       assert (Hval : conv (sg, w) (c_arith (cfun a) ((sg, w), v0) (cval_of (pv_ty pv) ilv)) = ((sg, w), z)).
@@ -929,12 +886,141 @@ Section StmtCorrect.
         fold tp. rewrite Cz1. rewrite <- Cd, <- Cs. cbn [snd]. destruct tp as [sp wp]. exact Cz. }
       assert (Hcs' : cs' = CSem.set_var cs x ((sg, w), z)) by (injection Hce as <-; f_equal; exact Hval).
       subst cs'. clear Hce.
-      exists (set_local ms x (VBv w z)). split.
-      - cbn [flat_map item_effects le_empty le_term app seqn fin_eff].
-        eapply runs_setl; [apply fin_pure_eval; exact Ez|].
-        right. exists (VBv w v0). split; [exact Hmx | reflexivity].
-      - apply srel_set_var; assumption. }
-    intros [Hst | [Hst _]]; [exact (S2n Hst)|]. rewrite HV in Hst. rewrite Hst in Hx. discriminate Hx.
+      exists (set_local ms x (VBv w z)). split; [|split; [apply srel_set_var; assumption | apply imms_done_set_local; assumption]].
+      cbn [flat_map item_effects le_empty le_term app seqn fin_eff].
+      eapply runs_setl; [exact Ez|].
+      right. exists (VBv w v0). split; [exact Hmx | reflexivity]. }
+    intros [Hst | [Hst _]]; [exact (st_ext_nonempty _ _ X2 Hst)|]. rewrite Hst in Hxs. discriminate Hxs.
+  Qed.
+
+  (* ------------------------------------------------------------------ RxV += e;  RxV -= e;  RxV *= e; *)
+  (* the tail of the model's assignment callback, once its pieces are known *)
+  Lemma casg_tail_ok a dest pv src' src0 src2 asg st2 st3 : (a = AAdd \/ a = ASub \/ a = AMul) ->
+    cast_operands cfg true dest pv st2 = OK ((dest, src'), st2) ->
+    compound_src cfg a dest src' st2 = OK (src0, st2) ->
+    (do eq <- ty_eq (pv_ty dest) (pv_ty src0); if eq then ret src0 else init_a_cast cfg (pv_ty dest) src0) st2 = OK (src2, st2) ->
+    mk_assign dest src2 st2 = OK (asg, st3) -> st_pending st3 = [] ->
+    casg_tail a (IPure dest) (IPure pv) st2 = OK (IAsg asg src2, st3).
+  Proof.
+    intros Ha Hco Hcs D1 Hm Hp. unfold casg_tail.
+    unfold bind at 1. unfold ret at 1. unfold bind at 1. unfold ret at 1. cbv beta iota.
+    destruct Ha as [-> | [-> | ->]]; unfold bind at 1; rewrite Hco; cbv beta iota; unfold bind at 1; rewrite Hcs;
+    cbn [fx cfg_fx fx_compound_conv all_fixes]; unfold bind at 1; rewrite D1;
+    unfold bind; rewrite Hm; rewrite chk_nil by exact Hp; reflexivity.
+  Qed.
+
+  Lemma read_lval_reg cs cls letters acc lv : dest_cls cls -> access_of_letters letters = Some acc ->
+    operand_lval E xi cs (OReg cls letters) = Some lv ->
+    lv = LReg (RIsa cls (substring 0 1 letters) false) (true, dest_w cls acc)
+              (if write_only acc then Some 0 else Some (ce_rold E (RIsa cls (substring 0 1 letters) false))) /\
+    read_lval E cs lv =
+    Some (mkval (true, dest_w cls acc)
+            (match lookup_reg (RIsa cls (substring 0 1 letters) false) (cs_regw cs) with
+             | Some v => v
+             | None => if write_only acc then 0 else ce_rold E (RIsa cls (substring 0 1 letters) false) end)).
+  Proof.
+    intros Hc Ha. cbn [operand_lval]. rewrite (proj1 (proj2 (dest_cls_widths cls Hc))).
+    rewrite <- (access_pair _ _ Ha). change (if is_pair acc then (cls_w cls * 2)%N else cls_w cls) with (dest_w cls acc).
+    cbn [existsb]. rewrite orb_false_r. rewrite <- (proj1 (access_write_only _ _ Ha)).
+    intros H. injection H as <-. split; [reflexivity|]. cbn [read_lval].
+    destruct (lookup_reg _ (cs_regw cs)); [reflexivity|]. destruct (write_only acc); reflexivity.
+  Qed.
+
+  Lemma sinv_casg_reg V a cls letters acc e :
+    (a = AAdd \/ a = ASub \/ a = AMul) ->
+    dest_cls cls -> access_of_letters letters = Some acc ->
+    rw (RIsa cls (substring 0 1 letters) false) = dest_w cls acc ->
+    pfrag rw IM V e -> SInv V (SExpr (EAssign a (EOp (OReg cls letters)) e)) V.
+  Proof.
+    intros Ha Hc Hacc Hrw Hfrag st Hok Hp.
+    set (w := dest_w cls acc) in *. assert (Hw : okw w) by (apply dest_w_okw; exact Hc).
+    set (r := RIsa cls (substring 0 1 letters) false) in *.
+    destruct (lower_reg_ok cls letters acc false st (or_introl Hc) Hacc (lst_ok_regs_ok _ _ _ Hok)) as [st1 [L1 [V1 [I1 [X1 [R1 [N1 [ri1 Lk1]]]]]]]].
+    assert (Hok1 : lst_ok IM V st1) by (eapply lst_ok_regs; eassumption).
+    destruct (expr_sim V e st1 Hfrag Hok1) as [pv [st2 [L2 [X2 [Hok2 [G2 Hsem]]]]]].
+    assert (Hp2 : st_pending st2 = []) by (eapply st_ext_pending; [exact X2|]; eapply st_ext_pending; eassumption).
+    set (n := rname cls letters false) in *.
+    pose (dest := mkpv (PRaw ("$reg:" +++ n)) (ty_int true w) (KReg n) []).
+    assert (Gd : goodpv dest) by (apply goodpv_reg; exact Hw).
+    (* the source converted to the type of the register *)
+    destruct (conv_back_ok pv st2 true w Hw G2) as [src' [C1 [T1 [G1 Hc1]]]].
+    (* both operands promoted *)
+    destruct (promotion_cast_ok subsigs macs cret hstart rw R rem dest st2 Gd) as [pd [A1 [A2 [A3 [A4 [_ A5]]]]]].
+    destruct (promotion_cast_ok subsigs macs cret hstart rw R rem src' st2 G1) as [ps [B1 [B2 [B3 [B4 [_ B5]]]]]].
+    rewrite T1 in B3, B4, B5. change (pv_ty dest) with (ty_int true w) in A3, A4, A5.
+    change (cty_of (ty_int true w)) with (true, w) in *.
+    set (tp := promote (true, w)) in *.
+    pose (src0 := mkpv (PBin (cop a) (rd pd) (rd ps)) (pv_ty pd) KExec (pv_tmps pd ++ pv_tmps ps)).
+    assert (G0 : goodpv src0).
+    { right. exists (fst tp), (snd tp). split; [exact A4|]. split; [exact A3 | exact I]. }
+    destruct (conv_back_ok src0 st2 true w Hw G0) as [src2 [D1 [T2 [_ Hd1]]]].
+    destruct (add_write_property_ok n st2 (lst_ok_regs_ok _ _ _ Hok2)) as [st3 [W1 [V3 [I3 [X3 R3]]]]].
+    assert (Hok3 : lst_ok IM V st3) by (eapply lst_ok_regs; eassumption).
+    assert (P3 : st_pending st3 = []) by (eapply st_ext_pending; eassumption).
+    exists [IAsg (mkle (EWriteReg (RParam ("$reg:" +++ n)) (rd src2)) (pv_tmps dest ++ pv_tmps src2) false) src2], st3.
+    split.
+    { rewrite lower_stmt_expr, lower_expr_casg, lower_expr_op. cbn [lower_operand].
+      unfold bind at 1. unfold bind at 1. unfold bind at 1. rewrite L1. unfold ret at 1. unfold bind at 1. rewrite L2.
+      fold dest.
+      assert (Hco : cast_operands cfg true dest pv st2 = OK ((dest, src'), st2)).
+      { rewrite cast_operands_imm. unfold bind at 1. change (pv_ty dest) with (ty_int true w). rewrite C1. reflexivity. }
+      assert (Hcs : compound_src cfg a dest src' st2 = OK (src0, st2)).
+      { destruct Ha as [-> | [-> | ->]]; cbn [compound_src]; unfold bind; rewrite A1, B1; unfold ret, arith_il_exec, src0;
+        rewrite A3, B3; cbn [vt_float ty_int andb]; reflexivity. }
+      change (mkpv (PRaw ("$reg:" +++ n)) (ty_int true (dest_w cls acc)) (KReg n) []) with dest.
+      rewrite (casg_tail_ok a dest pv src' src0 src2 _ st2 st3 Ha Hco Hcs D1
+                 (mk_assign_reg dest src2 st2 st3 n eq_refl eq_refl W1) P3). reflexivity. }
+    split.
+    { split; [exact Hok3|]. split; [eapply st_ext_trans; [exact X1|]; eapply st_ext_trans; eassumption|]. split; [repeat constructor|].
+      intros HR Hrem HJ cs ms fuel cs' Hrel Himm Hce.
+      pose proof Hrel as [Hrel0 [Hloc [Hmem [Hret [Hres [Hj Himl]]]]]].
+      pose proof Hrel0 as [_ [Hregw [Hrold _]]].
+      (* the old value of the register, read on the IL side *)
+      set (v0 := wrap w (match lookup_reg r (rnew ms) with Some v => v | None => if write_only acc then 0 else rold ms r end)).
+      assert (Hle2 : regs_le (st_regs st1) R).
+      { eapply regs_le_trans; [exact (st_ext_regs _ _ X2)|]. eapply regs_le_trans; [exact (st_ext_regs _ _ X3) | exact HR]. }
+      assert (Sd : sem rw R rem ms dest (VBv w v0)).
+      { split; [|apply shape_int; apply wrap_range]. unfold dest. cbn [pv_term]. unfold n.
+        rewrite (fin_reg_read R rem (st_regs st1) cls letters acc false ri1 (or_introl Hc) Hacc R1 Lk1 Hle2 Hrem).
+        cbn [eval]. rewrite orb_false_r, (rop_dest cls letters false Hc), (read_reg_src rw ms cls letters acc Hacc).
+        fold r. rewrite Hrw. reflexivity. }
+      destruct (Hsem st3 X3 HR Hrem HJ cs ms Hrel0 Himm) as [ilv [Sv Hcv]].
+      destruct (Hc1 ms ilv Sv) as [z1 [Hz1 [Ez1 Cz1]]].
+      assert (Ss : sem rw R rem ms src' (VBv w z1)) by (split; [exact Ez1 | rewrite T1; apply shape_int; exact Hz1]).
+      destruct (A5 ms _ Sd) as [vd [Sd' Cd]]. destruct (B5 ms _ Ss) as [vs [Ss' Cs]].
+      destruct (sem_int rw R rem ms pd vd _ _ A3 Sd') as [xd [-> [Hxd Ed]]].
+      destruct (sem_int rw R rem ms ps vs _ _ B3 Ss') as [xs [-> [Hxs' Es]]].
+      rewrite A3 in Cd. rewrite B3 in Cs. cbn [cval_of vt_sg ty_int pv_ty dest] in Cd, Cs.
+      assert (S0 : sem rw R rem ms src0 (VBv (snd tp) (wrap (snd tp) (cfun a xd xs)))).
+      { split; [|unfold src0; cbn [pv_ty]; rewrite A3; apply shape_int; apply wrap_range].
+        unfold src0. cbn [pv_term fin_pure eval]. unfold rd. rewrite Ed, Es, N.eqb_refl.
+        destruct Ha as [-> | [-> | ->]]; reflexivity. }
+      destruct (Hd1 ms _ S0) as [z [Hz [Ez Cz]]].
+      unfold src0 in Cz. cbn [pv_ty] in Cz. rewrite A3 in Cz. cbn [cval_of vt_sg ty_int] in Cz.
+      (* the C side *)
+      destruct fuel as [|[|k]]; [rewrite cexec_0 in Hce; discriminate Hce| |]; rewrite cexec_expr in Hce by exact Hret.
+      { rewrite ceval_0 in Hce. discriminate Hce. }
+      rewrite (ceval_casg k cs a (OReg cls letters) e Ha) in Hce.
+      destruct (ceval E csub xi k cs e) as [[s1 vr]|] eqn:Ee; [|discriminate Hce].
+      destruct (Hcv k s1 vr Ee) as [-> ->].
+      destruct (operand_lval E xi cs (OReg cls letters)) as [lv|] eqn:Eo; [|discriminate Hce].
+      destruct (read_lval_reg cs cls letters acc lv Hc Hacc Eo) as [-> Erd]. rewrite Erd in Hce.
+      cbn [option_map fst write_lval] in Hce. fold r w in Hce. rewrite Hregw, Hrold in Hce.
+      unfold mkval in Hce. cbn [snd] in Hce. fold v0 in Hce.
+      assert (Hval : conv (true, w) (c_arith (cfun a) ((true, w), v0) (cval_of (pv_ty pv) ilv)) = ((true, w), z)).
+      { rewrite compound_value; [| exact Hw | apply wfc_cval_of; [exact G2 | apply Sv] | destruct Ha as [-> | [-> | ->]]; unfold ring_fun; cbn; auto].
+        fold tp. rewrite Cz1. rewrite <- Cd, <- Cs. cbn [snd]. destruct tp as [sp wp]. exact Cz. }
+      assert (Hcs' : cs' = set_regw cs r z).
+      { injection Hce as <-. apply (f_equal (set_regw cs r)). exact (f_equal snd Hval). }
+      subst cs'. clear Hce.
+      exists (set_reg ms r z). split; [|split; [apply srel_set_reg; exact Hrel | apply imms_done_set_reg; exact Himm]].
+      cbn [flat_map item_effects le_empty le_term app seqn fin_eff].
+      assert (Lk3 : exists ri3, lookup_reg_info n (st_regs st3) = Some ri3).
+      { destruct (st_ext_regs _ _ X2 _ _ Lk1) as [ri2 [H2 _]]. destruct (st_ext_regs _ _ X3 _ _ H2) as [ri3 [H3 _]]. eauto. }
+      destruct Lk3 as [ri3 Lk3]. unfold n in *.
+      rewrite (fin_op_dest R rem (st_regs st3) cls letters acc ri3 Hc Hacc R3 Lk3 HR Hrem).
+      eapply runs_writereg; [exact Ez | exact Hrw]. }
+    intros Hst. eapply st_ext_nonempty; [exact X3|]. eapply st_ext_nonempty; [exact X2|]. exact (N1 Hst).
   Qed.
 
   (* ------------------------------------------------------------------ T x = e; *)
@@ -942,16 +1028,31 @@ Section StmtCorrect.
     set_var x t st = OK (tt, mkst (st_vars st ++ [(x, t)]) (st_regs st) (st_pending st) (st_hcount st) (st_imms st) true (st_removed st)).
   Proof. intros H. unfold set_var, bind, get, put. rewrite (lookup_none_existsb x _ H). reflexivity. Qed.
 
-  Lemma sinv_decl V ts sg w x e :
-    decl_ty ts sg w -> lookup x V = None -> ~ reserved x ->
-    pfrag V e -> SInv V (SDecl ts x (Some e)) (V ++ [(x, Some (ty_int sg w))]).
+  Lemma lst_ok_decl V st x t : lst_ok IM V st -> IM x = false ->
+    lst_ok IM (V ++ [(x, t)]) (mkst (st_vars st ++ [(x, t)]) (st_regs st) (st_pending st) (st_hcount st) (st_imms st) true (st_removed st)).
   Proof.
-    intros Hts Hx Hnr Hfrag st HV Hp Hr.
+    intros [H1 [H2 [H3 [H4 H5]]]] Hx. unfold lst_ok. cbn [st_vars st_imms st_regs].
+    split; [|split; [|split; [|split; [|exact H5]]]].
+    - intros y Hy. rewrite !lookup_app, (H1 y Hy). reflexivity.
+    - intros l Hl. rewrite lookup_app, (H2 l Hl). cbn [lookup]. rewrite (imm_letter_neq IM x l Hx Hl). reflexivity.
+    - intros l Hl. rewrite lookup_snoc_other by (apply (imm_letter_neq IM); assumption). exact (H3 l Hl).
+    - eapply Forall_impl; [|exact H4]. intros e [l [A [B C]]]. exists l. split; [exact A|]. split; [exact B|].
+      apply lookup_snoc_some. exact C.
+  Qed.
+
+  Lemma sinv_decl V ts sg w x e :
+    decl_ty ts sg w -> lookup x V = None -> ~ reserved IM x ->
+    pfrag rw IM V e -> SInv V (SDecl ts x (Some e)) (V ++ [(x, Some (ty_int sg w))]).
+  Proof.
+    intros Hts Hx Hnr Hfrag st Hok Hp.
+    destruct (not_reserved_imm IM x Hnr) as [Hxi _].
     destruct (decl_ty_ok ts sg w st Hts) as [Hdt [Hrc Hw]].
-    destruct (expr_inv subsigs macs cret hstart rw E csub xi V e Hfrag st HV) as [pv [st2 [L2 [S2 [G2 [_ [_ Hsem]]]]]]].
-    pose proof S2 as [S2v [S2r [S2p [S2h [S2i [S2m S2n]]]]]].
-    assert (Hx2 : lookup x (st_vars st2) = None) by (rewrite S2v, HV; exact Hx).
+    destruct (expr_sim V e st Hfrag Hok) as [pv [st2 [L2 [X2 [Hok2 [G2 Hsem]]]]]].
+    assert (Hp2 : st_pending st2 = []) by (eapply st_ext_pending; eassumption).
+    assert (Hx2 : lookup x (st_vars st2) = None) by (rewrite (proj1 Hok2 x Hxi); exact Hx).
     set (st3 := mkst (st_vars st2 ++ [(x, Some (ty_int sg w))]) (st_regs st2) (st_pending st2) (st_hcount st2) (st_imms st2) true (st_removed st2)).
+    assert (X3 : st_ext st2 st3).
+    { unfold st_ext, st3; cbn [st_pending st_hcount st_imms st_removed st_nonempty st_regs]. repeat split; auto using incl_refl, regs_le_refl. }
     destruct (cast_imm_ok (mkpv (PVarL x) (ty_int sg w) (KVar x) []) pv st3 sg w Hw eq_refl G2) as [src2 [C2 [T2 Hc2]]].
     exists [IEff (mkle (ESetL x (rd src2)) (pv_tmps pv) false)], st3.
     split.
@@ -959,24 +1060,20 @@ Section StmtCorrect.
       unfold decl_tail, bind, ret, get. cbn [as_pure cfg_params lookup ret]. unfold ret. rewrite Hx2.
       rewrite (cast_self_ok (mkpv (PVarL x) (pv_ty pv) (KVar x) []) pv st2 G2 eq_refl). cbv beta iota.
       rewrite (proj2 (goodpv_numeric pv G2)). rewrite (set_var_fresh x _ st2 Hx2). fold st3. step C2.
-      rewrite chk_nil by (unfold st3; cbn [st_pending]; rewrite S2p; exact Hp). reflexivity. }
+      rewrite chk_nil by (unfold st3; cbn [st_pending]; exact Hp2). reflexivity. }
     split.
-    { split; [unfold st3; cbn [st_vars]; congruence|].
-      split; [unfold frame, st3; cbn [st_pending st_hcount st_imms st_removed st_nonempty]; auto|].
-      split; [unfold st3; cbn [st_regs]; rewrite S2r; exact Hr|].
-      split; [unfold st3; cbn [st_regs]; rewrite S2r; apply regs_le_refl|]. split; [repeat constructor|].
-      intros R rem HR Hrem cs ms fuel cs' Hrel Hce. rewrite HV in Hrel.
-      pose proof Hrel as [Hrel0 [Hloc [Hregs [Hmem [Hret [Hres Hj]]]]]].
-      destruct (Hsem cs ms Hrel0) as [ilv [Sv Hcv]].
+    { split; [apply lst_ok_decl; assumption|]. split; [eapply st_ext_trans; eassumption|]. split; [repeat constructor|].
+      intros HR Hrem HJ cs ms fuel cs' Hrel Himm Hce.
+      pose proof Hrel as [Hrel0 [Hloc [Hmem [Hret [Hres [Hj Himl]]]]]].
+      destruct (Hsem st3 X3 HR Hrem HJ cs ms Hrel0 Himm) as [ilv [Sv Hcv]].
       destruct (Hc2 ms ilv Sv) as [z [Hz [Ez Cz]]].
       destruct fuel as [|k]; [rewrite cexec_0 in Hce; discriminate Hce|].
       rewrite cexec_decl in Hce by exact Hret. rewrite Hrc in Hce.
       destruct (ceval E csub xi k cs e) as [[s1 vr]|] eqn:Ee; [|discriminate Hce].
-      destruct (Hcv k s1 vr Ee I) as [-> ->]. injection Hce as <-. rewrite Cz.
-      exists (set_local ms x (VBv w z)). split.
-      - cbn [flat_map item_effects le_empty le_term app seqn fin_eff].
-        eapply runs_setl; [apply fin_pure_eval; exact Ez|]. left. exact (Hloc x Hx Hnr).
-      - apply srel_decl; assumption. }
+      destruct (Hcv k s1 vr Ee) as [-> ->]. injection Hce as <-. rewrite Cz.
+      exists (set_local ms x (VBv w z)). split; [|split; [apply srel_decl; assumption | apply imms_done_set_local; assumption]].
+      cbn [flat_map item_effects le_empty le_term app seqn fin_eff].
+      eapply runs_setl; [exact Ez|]. left. exact (Hloc x Hx Hnr). }
     intros _. reflexivity.
   Qed.
 
@@ -985,8 +1082,10 @@ Section StmtCorrect.
     mkst (st_vars st) (st_regs st) (st_pending st) (st_hcount st) (st_imms st) true (st_removed st).
   Lemma touch_eq st : touch st = OK (tt, touched st).
   Proof. reflexivity. Qed.
-  Lemma frame_touched st : frame st (touched st).
-  Proof. unfold frame, touched; cbn; auto. Qed.
+  Lemma st_ext_touched st : st_ext st (touched st).
+  Proof. unfold st_ext, touched; cbn. repeat split; auto using incl_refl, regs_le_refl. Qed.
+  Lemma lst_ok_touched V st : lst_ok IM V st -> lst_ok IM V (touched st).
+  Proof. intros H. eapply lst_ok_regs; [exact H | reflexivity | reflexivity | apply H]. Qed.
 
   Lemma sinv_skip V s items eff :
     (forall st, st_pending st = [] -> lower_stmt cfg s st = OK (items, touched st)) ->
@@ -994,13 +1093,12 @@ Section StmtCorrect.
     (forall fuel cs cs', cs_ret cs = None -> cexec E csub xi fuel cs s = Some cs' -> cs' = cs) ->
     SInv V s V.
   Proof.
-    intros Hlow Hplain Heff Hskip Hc st HV Hp Hr.
+    intros Hlow Hplain Heff Hskip Hc st Hok Hp.
     exists items, (touched st). split; [apply Hlow; exact Hp|]. split; [|reflexivity].
-    split; [exact HV|]. split; [apply frame_touched|]. split; [exact Hr|]. split; [apply regs_le_refl|].
-    split; [exact Hplain|].
-    intros R rem HR Hrem cs ms fuel cs' Hrel Hce. rewrite HV in Hrel.
-    rewrite (Hc fuel cs cs' ltac:(apply Hrel) Hce).
-    exists ms. split; [|exact Hrel]. rewrite Heff.
+    split; [apply lst_ok_touched; exact Hok|]. split; [apply st_ext_touched|]. split; [exact Hplain|].
+    intros HR Hrem HJ cs ms fuel cs' Hrel Himm Hce.
+    rewrite (Hc fuel cs cs' (srel_ret _ _ _ _ _ Hrel) Hce).
+    exists ms. split; [|split; [exact Hrel | exact Himm]]. rewrite Heff.
     destruct Hskip as [-> | ->]; cbn [fin_eff]; [apply runs_empty | apply runs_nop]; reflexivity.
   Qed.
 
@@ -1071,8 +1169,8 @@ Section StmtCorrect.
   (* the stored value: converted to the operation type (a Token-width type in the compiler) *)
   Lemma tok_cast_ok sg w p st : okw w -> goodpv p ->
     exists p', (do eq <- ty_eq (ty_tok sg w) (pv_ty p); if eq then ret p else init_a_cast cfg (ty_tok sg w) p) st = OK (p', st) /\
-      forall ms v, sem rw ms p v ->
-        exists z, 0 <= z < pow2 w /\ eval rw ms [] (pv_term p') = Some (VBv w z) /\
+      forall ms v, sem rw R rem ms p v ->
+        exists z, 0 <= z < pow2 w /\ eval rw ms [] (fin_pure R rem (pv_term p')) = Some (VBv w z) /\
                   conv (sg, w) (cval_of (pv_ty p) v) = ((sg, w), z).
   Proof.
     intros Hw Hp. destruct p as [tm ty k tmps].
@@ -1087,7 +1185,7 @@ Section StmtCorrect.
       eexists; split; [reflexivity|].
       intros ms v Hs. apply sem_bool in Hs; [|reflexivity]. destruct Hs as [b [-> He]]. cbn [pv_term] in He.
       exists (if b then wrap w 1 else wrap w 0). split; [destruct b; apply wrap_range|]. split.
-      + cbn [pv_term eval lit_pure vt_sg vt_w ty_tok]. rewrite He. cbn [sort_of_val sort_eqb]. rewrite N.eqb_refl.
+      + cbn [pv_term fin_pure eval lit_pure vt_sg vt_w ty_tok]. rewrite He. cbn [sort_of_val sort_eqb]. rewrite N.eqb_refl.
         destruct b; reflexivity.
       + cbn [pv_ty cval_of]. unfold conv, mkval, vint, int_t, interp. cbn [fst snd]. destruct b; f_equal.
     - (* integer source *)
@@ -1099,62 +1197,59 @@ Section StmtCorrect.
       intros ms v Hs. eapply sem_int in Hs; [|reflexivity]. destruct Hs as [z [-> [Hz He]]]. cbn [pv_term] in He.
       exists (wrap w (interp (sg0, w0) z)). split; [apply wrap_range|]. split; [|reflexivity].
       cbn [pv_term]. destruct (w0 <? w)%N eqn:Elt.
-      + destruct sg0; cbn [eval]; rewrite He; f_equal; f_equal.
+      + destruct sg0; cbn [fin_pure eval]; rewrite He; f_equal; f_equal.
         * apply (cast_widen w0 w true z); auto.
         * apply (cast_widen w0 w false z); auto.
-      + unfold cast_il_exec. cbn [vt_w vt_sg ty_int ty_tok eval].
-        destruct (sg && sg0); cbn [eval]; rewrite He; f_equal; f_equal; apply cast_narrow; auto; lia.
+      + unfold cast_il_exec. cbn [vt_w vt_sg ty_int ty_tok fin_pure eval].
+        destruct (sg && sg0); cbn [fin_pure eval]; rewrite He; f_equal; f_equal; apply cast_narrow; auto; lia.
   Qed.
 
   (* the address: converted to the 32-bit address type (D20 repaired) *)
   Lemma addr_ok p st : goodpv p ->
     exists p', addr_of cfg p st = OK (p', st) /\
-      forall ms v, sem rw ms p v ->
-        exists w1 z, eval rw ms [] (pv_term p') = Some (VBv w1 z) /\
+      forall ms v, sem rw R rem ms p v ->
+        exists w1 z, eval rw ms [] (fin_pure R rem (pv_term p')) = Some (VBv w1 z) /\
                      snd (conv (false, 32%N) (cval_of (pv_ty p) v)) = z.
   Proof.
     intros Hg.
-    destruct (int_of_bool_ok subsigs macs cret hstart rw p st Hg) as [p1 [s1 [w1 [I1 [G1 [T1 [W1 I5]]]]]]].
+    destruct (int_of_bool_ok subsigs macs cret hstart rw R rem p st Hg) as [p1 [s1 [w1 [I1 [G1 [T1 [W1 I5]]]]]]].
     unfold addr_of. unfold bind at 1. rewrite I1. cbn [fx cfg_fx fx_addr all_fixes].
     unfold bind, ty_eq, ret. rewrite T1. cbn [is_numeric ty_int vt_void vt_ext negb andb vt_w vt_tok].
     destruct (vtype_eqb (ty_int s1 w1) (ty_int false 32)) eqn:Eeq; [|destruct (w1 =? 32)%N eqn:Ew].
     - apply vtype_eqb_int in Eeq. destruct Eeq as [-> ->].
       exists p1. split; [reflexivity|]. intros ms v Hs. destruct (I5 ms v Hs) as [v1 [S1 C1]].
-      destruct (sem_int rw ms p1 v1 false 32 T1 S1) as [z [-> [Hz He]]].
+      destruct (sem_int rw R rem ms p1 v1 false 32 T1 S1) as [z [-> [Hz He]]].
       exists 32%N, z. split; [exact He|]. rewrite <- C1, T1. cbn [cval_of vt_sg ty_int].
       unfold conv, mkval, vint. cbn [fst snd]. rewrite wrap_interp. apply wrap_small. exact Hz.
     - apply N.eqb_eq in Ew. subst w1. cbn [andb].
       exists p1. split; [reflexivity|]. intros ms v Hs. destruct (I5 ms v Hs) as [v1 [S1 C1]].
-      destruct (sem_int rw ms p1 v1 s1 32 T1 S1) as [z [-> [Hz He]]].
+      destruct (sem_int rw R rem ms p1 v1 s1 32 T1 S1) as [z [-> [Hz He]]].
       exists 32%N, z. split; [exact He|]. rewrite <- C1, T1. cbn [cval_of vt_sg ty_int].
       unfold conv, mkval, vint. cbn [fst snd]. rewrite wrap_interp. apply wrap_small. exact Hz.
     - cbn [andb].
-      destruct (init_a_cast_ok subsigs macs cret hstart rw false 32 p1 st okw32 G1) as [p2 [H1 [_ [H3 [_ H5]]]]].
+      destruct (init_a_cast_ok subsigs macs cret hstart rw R rem false 32 p1 st okw32 G1) as [p2 [H1 [_ [H3 [_ H5]]]]].
       rewrite H1. exists p2. split; [reflexivity|]. intros ms v Hs. destruct (I5 ms v Hs) as [v1 [S1 C1]].
       destruct (H5 ms v1 S1) as [v2 [S2 C2]].
-      destruct (sem_int rw ms p2 v2 false 32 H3 S2) as [z [-> [Hz He]]].
+      destruct (sem_int rw R rem ms p2 v2 false 32 H3 S2) as [z [-> [Hz He]]].
       exists 32%N, z. split; [exact He|]. rewrite <- C1, <- C2, H3. reflexivity.
   Qed.
 
-  Lemma srel_store V cs ms a v n : srel V cs ms -> srel V (c_store cs a v n) (set_mem ms (write_bytes (mem ms) a v n)).
+  Lemma srel_store V cs ms a v n : srel IM E V cs ms -> srel IM E V (c_store cs a v n) (set_mem ms (write_bytes (mem ms) a v n)).
   Proof.
     intros [H1 [H2 [H3 [H4 [H5 [H6 H7]]]]]]. split; [exact H1|]. split; [exact H2|].
-    cbn [cs_regw c_store rnew set_mem cs_mem mem cs_ret]. rewrite H4. auto.
+    cbn [c_store cs_mem mem set_mem cs_ret]. rewrite H3. auto 10.
   Qed.
 
   Lemma runs_store a v ms w1 x w y : eval rw ms [] a = Some (VBv w1 x) -> eval rw ms [] v = Some (VBv w y) ->
     runs rw ilsubs (EStore a v) ms (set_mem ms (write_bytes (mem ms) x y (N.to_nat (w / 8)))).
   Proof. intros Ha Hv. exists 1%nat. cbn [exec]. rewrite Ha, Hv. reflexivity. Qed.
 
-  Lemma sinv_store V sg w a v : okw w -> pfrag V a -> pfrag V v -> SInv V (SStore sg w (ECons a (ECons v ENil))) V.
+  Lemma sinv_store V sg w a v : okw w -> pfrag rw IM V a -> pfrag rw IM V v -> SInv V (SStore sg w (ECons a (ECons v ENil))) V.
   Proof.
-    intros Hw Hfa Hfv st HV Hp Hr.
-    destruct (expr_inv subsigs macs cret hstart rw E csub xi V a Hfa st HV) as [pa [st1 [L1 [S1 [G1 [_ [_ Hsema]]]]]]].
-    pose proof S1 as [S1v [S1r [S1p [_ [_ [_ S1n]]]]]].
-    assert (HV1 : st_vars st1 = V) by congruence.
-    destruct (expr_inv subsigs macs cret hstart rw E csub xi V v Hfv st1 HV1) as [pd [st2 [L2 [S2 [G2 [_ [_ Hsemv]]]]]]].
-    pose proof S2 as [S2v [S2r [S2p [_ [_ [_ S2n]]]]]].
-    assert (Hp2 : st_pending st2 = []) by congruence.
+    intros Hw Hfa Hfv st Hok Hp.
+    destruct (expr_sim V a st Hfa Hok) as [pa [st1 [L1 [X1 [Hok1 [G1 Hsema]]]]]].
+    destruct (expr_sim V v st1 Hfv Hok1) as [pd [st2 [L2 [X2 [Hok2 [G2 Hsemv]]]]]].
+    assert (Hp2 : st_pending st2 = []) by (eapply st_ext_pending; [exact X2|]; eapply st_ext_pending; eassumption).
     destruct (addr_ok pa st2 G1) as [va [A1 A2]].
     destruct (tok_cast_ok sg w pd st2 Hw G2) as [d [D1 D2]].
     exists [IEff (mkle (EStore (rd va) (rd d)) (pv_tmps va ++ pv_tmps d) false)], (touched st2).
@@ -1165,25 +1260,25 @@ Section StmtCorrect.
       erewrite bind_bind_OK by exact D1. unfold bind. rewrite touch_eq.
       rewrite chk_nil by exact Hp2. reflexivity. }
     split; [|reflexivity].
-    split; [cbn [touched st_vars]; congruence|].
-    split; [eapply frame_trans; [apply st_same_frame; exact S1|]; eapply frame_trans; [apply st_same_frame; exact S2 | apply frame_touched]|].
-    split; [cbn [touched st_regs]; rewrite S2r, S1r; exact Hr|].
-    split; [cbn [touched st_regs]; rewrite S2r, S1r; apply regs_le_refl|]. split; [repeat constructor|].
-    intros R rem HR Hrem cs ms fuel cs' Hrel Hce. rewrite HV in Hrel.
-    pose proof Hrel as [Hrel0 [_ [_ [Hmem [Hret _]]]]].
-    destruct (Hsema cs ms Hrel0) as [ila [Sa Hca]]. destruct (Hsemv cs ms Hrel0) as [ilv [Sv Hcv]].
+    split; [apply lst_ok_touched; exact Hok2|].
+    split; [eapply st_ext_trans; [exact X1|]; eapply st_ext_trans; [exact X2 | apply st_ext_touched]|].
+    split; [repeat constructor|].
+    intros HR Hrem HJ cs ms fuel cs' Hrel Himm Hce.
+    pose proof Hrel as [Hrel0 [_ [Hmem [Hret _]]]].
+    destruct (Hsema (touched st2) (st_ext_trans _ _ _ X2 (st_ext_touched st2)) HR Hrem HJ cs ms Hrel0 Himm) as [ila [Sa Hca]].
+    destruct (Hsemv (touched st2) (st_ext_touched st2) HR Hrem HJ cs ms Hrel0 Himm) as [ilv [Sv Hcv]].
     destruct (A2 ms ila Sa) as [w1 [x [Ea Cx]]]. destruct (D2 ms ilv Sv) as [y [Hy [Ey Cy]]].
     destruct fuel as [|k]; [rewrite cexec_0 in Hce; discriminate Hce|].
     rewrite cexec_store in Hce by exact Hret.
     destruct (ceval E csub xi k cs a) as [[s1 cva]|] eqn:Eca; [|discriminate Hce].
-    destruct (Hca k s1 cva Eca I) as [-> ->].
+    destruct (Hca k s1 cva Eca) as [-> ->].
     destruct (ceval E csub xi k cs v) as [[s2 cvv]|] eqn:Ecv; [|discriminate Hce].
-    destruct (Hcv k s2 cvv Ecv I) as [-> ->]. rewrite Cx, Cy in Hce. cbn [snd] in Hce.
+    destruct (Hcv k s2 cvv Ecv) as [-> ->]. rewrite Cx, Cy in Hce. cbn [snd] in Hce.
     assert (Hcs : c_store cs x y (N.to_nat (w / 8)) = cs') by congruence. rewrite <- Hcs.
-    exists (set_mem ms (write_bytes (mem ms) x y (N.to_nat (w / 8)))). split.
-    - cbn [flat_map item_effects le_empty le_term app seqn fin_eff].
-      eapply runs_store; apply fin_pure_eval; eassumption.
-    - apply srel_store. exact Hrel.
+    exists (set_mem ms (write_bytes (mem ms) x y (N.to_nat (w / 8)))).
+    split; [|split; [apply srel_store; exact Hrel | apply imms_done_set_mem; exact Himm]].
+    cbn [flat_map item_effects le_empty le_term app seqn fin_eff].
+    eapply runs_store; eassumption.
   Qed.
 
   (* ------------------------------------------------------------------ JUMP(e); *)
@@ -1205,18 +1300,18 @@ Section StmtCorrect.
 
   Lemma jump_cast_ok p st : goodpv p ->
     exists p', (if (vt_w (pv_ty p) =? 32)%N && negb (vt_tok (pv_ty p)) then ret p else init_a_cast cfg (ty_int false 32) p) st = OK (p', st) /\
-      forall ms v, sem rw ms p v ->
-        exists z, 0 <= z < pow2 32 /\ eval rw ms [] (pv_term p') = Some (VBv 32 z) /\
+      forall ms v, sem rw R rem ms p v ->
+        exists z, 0 <= z < pow2 32 /\ eval rw ms [] (fin_pure R rem (pv_term p')) = Some (VBv 32 z) /\
                   snd (conv (false, 32%N) (cval_of (pv_ty p) v)) = z.
   Proof.
     intros Hg.
-    destruct (init_a_cast_ok subsigs macs cret hstart rw false 32 p st okw32 Hg) as [p2 [H1 [_ [H3 [_ H5]]]]].
+    destruct (init_a_cast_ok subsigs macs cret hstart rw R rem false 32 p st okw32 Hg) as [p2 [H1 [_ [H3 [_ H5]]]]].
     assert (Hcast : exists p', init_a_cast cfg (ty_int false 32) p st = OK (p', st) /\
-              forall ms v, sem rw ms p v ->
-                exists z, 0 <= z < pow2 32 /\ eval rw ms [] (pv_term p') = Some (VBv 32 z) /\
+              forall ms v, sem rw R rem ms p v ->
+                exists z, 0 <= z < pow2 32 /\ eval rw ms [] (fin_pure R rem (pv_term p')) = Some (VBv 32 z) /\
                           snd (conv (false, 32%N) (cval_of (pv_ty p) v)) = z).
     { exists p2. split; [exact H1|]. intros ms v Hs. destruct (H5 ms v Hs) as [v2 [S2 C2]].
-      destruct (sem_int rw ms p2 v2 false 32 H3 S2) as [z [-> [Hz He]]].
+      destruct (sem_int rw R rem ms p2 v2 false 32 H3 S2) as [z [-> [Hz He]]].
       exists z. split; [exact Hz|]. split; [exact He|]. rewrite <- C2, H3. reflexivity. }
     pose proof Hg as [[Ht _] | [s0 [w0 [Hw0 [Ht _]]]]].
     - assert (Hc : (vt_w (pv_ty p) =? 32)%N && negb (vt_tok (pv_ty p)) = false) by (rewrite Ht; reflexivity).
@@ -1225,7 +1320,7 @@ Section StmtCorrect.
       + assert (Hc : (vt_w (pv_ty p) =? 32)%N && negb (vt_tok (pv_ty p)) = true)
           by (rewrite Ht; cbn [vt_w vt_tok ty_int negb]; rewrite Ew; reflexivity).
         rewrite Hc. apply N.eqb_eq in Ew. subst w0. exists p. split; [reflexivity|].
-        intros ms v Hs. destruct (sem_int rw ms p v s0 32 Ht Hs) as [z [-> [Hz He]]].
+        intros ms v Hs. destruct (sem_int rw R rem ms p v s0 32 Ht Hs) as [z [-> [Hz He]]].
         exists z. split; [exact Hz|]. split; [exact He|]. rewrite Ht. cbn [cval_of vt_sg ty_int].
         unfold conv, mkval, vint. cbn [fst snd]. rewrite wrap_interp. apply wrap_small. exact Hz.
       + assert (Hc : (vt_w (pv_ty p) =? 32)%N && negb (vt_tok (pv_ty p)) = false)
@@ -1233,37 +1328,43 @@ Section StmtCorrect.
         rewrite Hc. exact Hcast.
   Qed.
 
-  Lemma rel_jump_flag V cs ms v : (forall x, reserved x -> lookup x V = None) -> rel V cs ms ->
-    rel V cs (set_local ms "jump_flag" v).
+  Lemma rel_jump_flag V cs ms v : (forall x, reserved IM x -> lookup x V = None) -> rel IM E V cs ms ->
+    rel IM E V cs (set_local ms "jump_flag" v).
   Proof.
-    intros Hres H y sg w Hy Hw. cbn [locals set_local lookup].
+    intros Hres [R1 [R2 [R3 [R4 [R5 R6]]]]]. unfold rel. cbn [locals rnew rold rnew0 imms set_local].
+    split; [|auto 10].
+    intros y sg w Hy Hw. cbn [lookup].
     destruct (String.eqb_spec y "jump_flag") as [->|_]; [rewrite Hres in Hy by (left; reflexivity); discriminate Hy|].
-    exact (H y sg w Hy Hw).
+    exact (R1 y sg w Hy Hw).
   Qed.
 
-  Lemma srel_jump V cs ms z : srel V cs ms -> 0 <= z < pow2 32 ->
-    srel V (mkcs (cs_vars cs) (cs_regw cs) (cs_mem cs) (Some z) (cs_ret cs) (cs_events cs))
+  Lemma srel_jump V cs ms z : srel IM E V cs ms -> 0 <= z < pow2 32 ->
+    srel IM E V (mkcs (cs_vars cs) (cs_regw cs) (cs_mem cs) (Some z) (cs_ret cs) (cs_events cs))
            (set_local (set_local ms "jump_flag" (VB true)) "jump_target" (VBv 32 z)).
   Proof.
-    intros [H1 [H2 [H3 [H4 [H5 [H6 H7]]]]]] Hz. split; [|split].
-    - intros y sg w Hy Hw. cbn [cs_vars locals set_local lookup].
-      destruct (String.eqb_spec y "jump_target") as [->|_]; [rewrite H6 in Hy by (right; reflexivity); discriminate Hy|].
-      destruct (String.eqb_spec y "jump_flag") as [->|_]; [rewrite H6 in Hy by (left; reflexivity); discriminate Hy|].
-      exact (H1 y sg w Hy Hw).
+    intros [[R1 [R2 [R3 [R4 [R5 R6]]]]] [H2 [H3 [H4 [H5 [H6 H7]]]]]] Hz. split; [|split].
+    - unfold rel. cbn [cs_vars cs_regw locals rnew rold rnew0 imms set_local]. split; [|auto 10].
+      intros y sg w Hy Hw. cbn [lookup].
+      destruct (String.eqb_spec y "jump_target") as [->|_]; [rewrite H5 in Hy by (right; left; reflexivity); discriminate Hy|].
+      destruct (String.eqb_spec y "jump_flag") as [->|_]; [rewrite H5 in Hy by (left; reflexivity); discriminate Hy|].
+      exact (R1 y sg w Hy Hw).
     - intros y Hy Hyr. cbn [locals set_local lookup].
-      destruct (String.eqb_spec y "jump_target") as [->|_]; [exfalso; apply Hyr; right; reflexivity|].
+      destruct (String.eqb_spec y "jump_target") as [->|_]; [exfalso; apply Hyr; right; left; reflexivity|].
       destruct (String.eqb_spec y "jump_flag") as [->|_]; [exfalso; apply Hyr; left; reflexivity|].
       exact (H2 y Hy Hyr).
-    - cbn [cs_regw rnew set_local cs_mem mem cs_ret]. repeat (split; [assumption|]).
-      unfold jrel. cbn [cs_jump locals set_local]. repeat split; try reflexivity; apply Hz.
+    - cbn [cs_mem mem set_local cs_ret]. repeat (split; [assumption|]).
+      split; [unfold jrel; cbn [cs_jump locals set_local]; repeat split; try reflexivity; apply Hz|].
+      intros l Hl. cbn [locals set_local lookup imms].
+      destruct (String.eqb_spec l "jump_target") as [->|_]; [rewrite (proj2 HIM) in Hl; discriminate Hl|].
+      destruct (String.eqb_spec l "jump_flag") as [->|_]; [rewrite (proj1 HIM) in Hl; discriminate Hl|].
+      exact (H7 l Hl).
   Qed.
 
-  Lemma sinv_jump V e : pfrag V e -> SInv V (SJump e) V.
+  Lemma sinv_jump V e : pfrag rw IM V e -> SInv V (SJump e) V.
   Proof.
-    intros Hfrag st HV Hp Hr.
-    destruct (expr_inv subsigs macs cret hstart rw E csub xi V e Hfrag st HV) as [pv [st2 [L2 [S2 [G2 [_ [_ Hsem]]]]]]].
-    pose proof S2 as [S2v [S2r [S2p [_ [_ [_ S2n]]]]]].
-    assert (Hp2 : st_pending st2 = []) by congruence.
+    intros Hfrag st Hok Hp.
+    destruct (expr_sim V e st Hfrag Hok) as [pv [st2 [L2 [X2 [Hok2 [G2 Hsem]]]]]].
+    assert (Hp2 : st_pending st2 = []) by (eapply st_ext_pending; eassumption).
     destruct (jump_cast_ok pv st2 G2) as [ta [J1 J2]].
     exists [IEff (mkle (ESeq (ESetL "jump_flag" (PBool true)) (ESetL "jump_target" (rd ta))) (pv_tmps ta) false)], (touched st2).
     split.
@@ -1272,94 +1373,92 @@ Section StmtCorrect.
       rewrite (proj1 (goodpv_numeric pv G2)). unfold ret at 1. unfold bind at 1. rewrite J1.
       unfold bind. rewrite touch_eq. rewrite chk_nil by exact Hp2. reflexivity. }
     split; [|reflexivity].
-    split; [cbn [touched st_vars]; congruence|].
-    split; [eapply frame_trans; [apply st_same_frame; exact S2 | apply frame_touched]|].
-    split; [cbn [touched st_regs]; rewrite S2r; exact Hr|].
-    split; [cbn [touched st_regs]; rewrite S2r; apply regs_le_refl|]. split; [repeat constructor|].
-    intros R rem HR Hrem cs ms fuel cs' Hrel Hce. rewrite HV in Hrel.
-    pose proof Hrel as [Hrel0 [_ [_ [_ [Hret [Hres Hj]]]]]].
+    split; [apply lst_ok_touched; exact Hok2|].
+    split; [eapply st_ext_trans; [exact X2 | apply st_ext_touched]|].
+    split; [repeat constructor|].
+    intros HR Hrem HJ cs ms fuel cs' Hrel Himm Hce.
+    pose proof Hrel as [Hrel0 [_ [_ [Hret [Hres [Hj _]]]]]].
     (* the target is evaluated after jump_flag was set: it does not depend on it *)
     set (ms1 := set_local ms "jump_flag" (VB true)).
-    assert (Hrel1 : rel V cs ms1) by (apply rel_jump_flag; assumption).
-    destruct (Hsem cs ms1 Hrel1) as [ilv [Sv Hcv]].
+    assert (Hrel1 : rel IM E V cs ms1) by (apply rel_jump_flag; assumption).
+    assert (Himm1 : imms_done IM J ms1) by (apply imms_done_set_local; [exact (proj1 HIM) | exact Himm]).
+    destruct (Hsem (touched st2) (st_ext_touched st2) HR Hrem HJ cs ms1 Hrel1 Himm1) as [ilv [Sv Hcv]].
     destruct (J2 ms1 ilv Sv) as [z [Hz [Ez Cz]]].
     destruct fuel as [|k]; [rewrite cexec_0 in Hce; discriminate Hce|].
     rewrite cexec_jump in Hce by exact Hret.
     destruct (ceval E csub xi k cs e) as [[s1 vr]|] eqn:Ee; [|discriminate Hce].
-    destruct (Hcv k s1 vr Ee I) as [-> ->]. rewrite Cz in Hce.
+    destruct (Hcv k s1 vr Ee) as [-> ->]. rewrite Cz in Hce.
     assert (Hcs : mkcs (cs_vars cs) (cs_regw cs) (cs_mem cs) (Some z) (cs_ret cs) (cs_events cs) = cs') by congruence.
     rewrite <- Hcs.
-    exists (set_local ms1 "jump_target" (VBv 32 z)). split.
-    - cbn [flat_map item_effects le_empty le_term app seqn fin_eff fin_pure].
-      apply runs_seq. exists ms1. split.
-      + apply runs_setl; [reflexivity|]. unfold jrel in Hj. destruct (cs_jump cs) as [t|].
-        * right. exists (VB true). split; [apply Hj | reflexivity].
-        * left. apply Hj.
-      + apply runs_setl; [apply fin_pure_eval; exact Ez|]. unfold ms1. cbn [locals set_local lookup].
-        change (String.eqb "jump_target" "jump_flag") with false. cbv iota.
-        unfold jrel in Hj. destruct (cs_jump cs) as [t|].
-        * right. exists (VBv 32 t). split; [apply Hj | reflexivity].
-        * left. apply Hj.
-    - apply srel_jump; assumption.
+    exists (set_local ms1 "jump_target" (VBv 32 z)).
+    split; [|split; [apply srel_jump; assumption | apply imms_done_set_local; [exact (proj2 HIM) | exact Himm1]]].
+    cbn [flat_map item_effects le_empty le_term app seqn fin_eff fin_pure].
+    apply runs_seq. exists ms1. split.
+    - apply runs_setl; [reflexivity|]. unfold jrel in Hj. destruct (cs_jump cs) as [t|].
+      + right. exists (VB true). split; [apply Hj | reflexivity].
+      + left. apply Hj.
+    - apply runs_setl; [exact Ez|]. unfold ms1. cbn [locals set_local lookup].
+      change (String.eqb "jump_target" "jump_flag") with false. cbv iota.
+      unfold jrel in Hj. destruct (cs_jump cs) as [t|].
+      + right. exists (VBv 32 t). split; [apply Hj | reflexivity].
+      + left. apply Hj.
   Qed.
 
   (* ------------------------------------------------------------------ sequences and blocks *)
-  Lemma post_cex V' st st' items (cex cex' : nat -> cstate -> option cstate) :
+  Lemma post_cex V V' st st' items (cex cex' : nat -> cstate -> option cstate) :
     (forall fuel cs cs', cex' fuel cs = Some cs' -> exists fuel', cex fuel' cs = Some cs') ->
-    post V' st st' items cex -> post V' st st' items cex'.
+    post V V' st st' items cex -> post V V' st st' items cex'.
   Proof.
-    intros Hc [H1 [H2 [H3 [H4 [H5 H6]]]]]. repeat (split; [assumption|]).
-    intros R rem HR Hrem cs ms fuel cs' Hrel Hce. destruct (Hc fuel cs cs' Hce) as [fuel' Hce'].
-    exact (H6 R rem HR Hrem cs ms fuel' cs' Hrel Hce').
+    intros Hc [H1 [H2 [H3 H6]]]. repeat (split; [assumption|]).
+    intros HR Hrem HJ cs ms fuel cs' Hrel Himm Hce. destruct (Hc fuel cs cs' Hce) as [fuel' Hce'].
+    exact (H6 HR Hrem HJ cs ms fuel' cs' Hrel Himm Hce').
   Qed.
 
   Lemma ssinv_nil V : SsInv V SNil V.
   Proof.
-    intros st HV Hp Hr. exists [], st. split; [reflexivity|]. split; [|intros _ H; congruence].
-    split; [exact HV|]. split; [apply frame_refl|]. split; [exact Hr|]. split; [apply regs_le_refl|].
-    split; [constructor|].
-    intros R rem HR Hrem cs ms fuel cs' Hrel Hce. rewrite HV in Hrel.
+    intros st Hok Hp. exists [], st. split; [reflexivity|]. split; [|intros _ H; congruence].
+    split; [exact Hok|]. split; [apply st_ext_refl|]. split; [constructor|].
+    intros HR Hrem HJ cs ms fuel cs' Hrel Himm Hce.
     destruct fuel as [|k]; [rewrite cexecs_0 in Hce; discriminate Hce|]. rewrite cexecs_nil in Hce. injection Hce as <-.
-    exists ms. split; [|exact Hrel]. cbn [flat_map seqn fin_eff]. apply runs_empty. reflexivity.
+    exists ms. split; [|split; [exact Hrel | exact Himm]]. cbn [flat_map seqn fin_eff]. apply runs_empty. reflexivity.
   Qed.
 
   Lemma ssinv_cons V s V1 l V2 : SInv V s V1 -> SsInv V1 l V2 -> SsInv V (SCons s l) V2.
   Proof.
-    intros IH1 IH2 st HV Hp Hr.
-    destruct (IH1 st HV Hp Hr) as [a [st1 [L1 [[V1' [F1 [R1 [Le1 [Pl1 S1]]]]] N1]]]].
-    assert (P1 : st_pending st1 = []) by (destruct F1 as [-> _]; exact Hp).
-    destruct (IH2 st1 V1' P1 R1) as [b [st2 [L2 [[V2' [F2 [R2 [Le2 [Pl2 S2]]]]] N2]]]].
+    intros IH1 IH2 st Hok Hp.
+    destruct (IH1 st Hok Hp) as [a [st1 [L1 [[Hok1 [X1 [Pl1 S1]]] N1]]]].
+    assert (P1 : st_pending st1 = []) by (eapply st_ext_pending; eassumption).
+    destruct (IH2 st1 Hok1 P1) as [b [st2 [L2 [[Hok2 [X2 [Pl2 S2]]] N2]]]].
     exists (a ++ b), st2.
     split. { rewrite lower_stmts_cons. unfold bind. rewrite L1, L2. reflexivity. }
     split.
-    { split; [exact V2'|]. split; [eapply frame_trans; eauto|]. split; [exact R2|].
-      split; [eapply regs_le_trans; eauto|]. split; [apply Forall_app; auto|].
-      intros R rem HR Hrem cs ms fuel cs' Hrel Hce.
+    { split; [exact Hok2|]. split; [eapply st_ext_trans; eauto|]. split; [apply Forall_app; auto|].
+      intros HR Hrem HJ cs ms fuel cs' Hrel Himm Hce.
       destruct fuel as [|k]; [rewrite cexecs_0 in Hce; discriminate Hce|]. rewrite cexecs_cons in Hce.
       destruct (cexec E csub xi k cs s) as [cs1|] eqn:Ec1; [|discriminate Hce].
-      destruct (S1 R rem (regs_le_trans _ _ _ Le2 HR) Hrem cs ms k cs1 Hrel Ec1) as [ms1 [Run1 Rel1]].
-      rewrite <- V1' in Rel1.
-      destruct (S2 R rem HR Hrem cs1 ms1 k cs' Rel1 Hce) as [ms2 [Run2 Rel2]].
-      exists ms2. split; [|exact Rel2].
+      destruct (S1 (regs_le_trans _ _ _ (st_ext_regs _ _ X2) HR) Hrem (incl_tran (st_ext_imms _ _ X2) HJ) cs ms k cs1 Hrel Himm Ec1)
+        as [ms1 [Run1 [Rel1 Imm1]]].
+      destruct (S2 HR Hrem HJ cs1 ms1 k cs' Rel1 Imm1 Hce) as [ms2 [Run2 [Rel2 Imm2]]].
+      exists ms2. split; [|split; [exact Rel2 | exact Imm2]].
       rewrite flat_map_app, fin_eff_seqn, map_app. apply runs_seqn_app. exists ms1.
       rewrite <- !fin_eff_seqn. split; assumption. }
-    intros Hst _. destruct F2 as [_ [_ [_ [_ F2]]]]. apply F2. exact (N1 Hst).
+    intros Hst _. eapply st_ext_nonempty; [exact X2|]. exact (N1 Hst).
   Qed.
 
-  Lemma sinv_block V l V' : sfrags rw V l V' -> SsInv V l V' -> SInv V (SBlock l) V'.
+  Lemma sinv_block V l V' : sfrags rw IM V l V' -> SsInv V l V' -> SInv V (SBlock l) V'.
   Proof.
     destruct l as [|s t].
     - intros H _. inversion H; subst. apply sinv_block_nil.
-    - intros _ IH st HV Hp Hr. destruct (IH st HV Hp Hr) as [items [st' [L [Post N]]]].
+    - intros _ IH st Hok Hp. destruct (IH st Hok Hp) as [items [st' [L [Post N]]]].
       exists items, st'. split; [rewrite lower_stmt_block_cons; exact L|].
       split; [|intros Hst; apply N; [exact Hst | discriminate]].
-      assert (Hpost : post V' st st' items (fun fuel cs => match cs_ret cs with Some _ => None | None => cexec E csub xi fuel cs (SBlock (SCons s t)) end)).
+      assert (Hpost : post V V' st st' items (fun fuel cs => match cs_ret cs with Some _ => None | None => cexec E csub xi fuel cs (SBlock (SCons s t)) end)).
       { eapply post_cex; [|exact Post]. intros fuel cs cs' H. cbv beta in H.
         destruct (cs_ret cs) eqn:Hret; [discriminate H|].
         destruct fuel as [|k]; [rewrite cexec_0 in H; discriminate H|]. rewrite cexec_block in H by exact Hret. eauto. }
-      destruct Hpost as [H1 [H2 [H3 [H4 [H5 H6]]]]]. repeat (split; [assumption|]).
-      intros R rem HR Hrem cs ms fuel cs' Hrel Hce. apply (H6 R rem HR Hrem cs ms fuel cs' Hrel).
-      rewrite (srel_ret _ _ _ Hrel). exact Hce.
+      destruct Hpost as [H1 [H2 [H3 H6]]]. repeat (split; [assumption|]).
+      intros HR Hrem HJ cs ms fuel cs' Hrel Himm Hce. apply (H6 HR Hrem HJ cs ms fuel cs' Hrel Himm).
+      rewrite (srel_ret _ _ _ _ _ Hrel). exact Hce.
   Qed.
 
   (* ------------------------------------------------------------------ if (c) t   and   if (c) t else f *)
@@ -1367,30 +1466,28 @@ Section StmtCorrect.
   Proof. reflexivity. Qed.
 
   (* the condition: lowered by ExprCorrect, evaluated on both sides *)
-  Lemma cond_sim V c st : pfrag V c -> st_vars st = V ->
-    exists pc st1, lower_expr cfg c st = OK (IPure pc, st1) /\ st_same st st1 /\
-      forall cs ms, rel V cs ms ->
-        exists b, eval rw ms [] (cond_of cfg pc) = Some (VB b) /\
+  Lemma cond_sim V c st : pfrag rw IM V c -> lst_ok IM V st ->
+    exists pc st1, lower_expr cfg c st = OK (IPure pc, st1) /\ st_ext st st1 /\ lst_ok IM V st1 /\
+      forall st3, st_ext st1 st3 -> regs_le (st_regs st3) R -> norem rem -> incl (st_imms st3) J ->
+      forall cs ms, rel IM E V cs ms -> imms_done IM J ms ->
+        exists b, eval rw ms [] (fin_pure R rem (cond_of cfg pc)) = Some (VB b) /\
           forall k s1 vc, ceval E csub xi k cs c = Some (s1, vc) -> s1 = cs /\ negb (snd vc =? 0) = b.
   Proof.
-    intros Hfrag HV.
-    destruct (expr_inv subsigs macs cret hstart rw E csub xi V c Hfrag st HV) as [pc [st1 [L1 [S1 [G1 [_ [_ Hsem]]]]]]].
-    exists pc, st1. split; [exact L1|]. split; [exact S1|].
-    intros cs ms Hrel. destruct (Hsem cs ms Hrel) as [ilv [Sv Hcv]].
+    intros Hfrag Hok.
+    destruct (expr_sim V c st Hfrag Hok) as [pc [st1 [L1 [X1 [Hok1 [G1 Hsem]]]]]].
+    exists pc, st1. split; [exact L1|]. split; [exact X1|]. split; [exact Hok1|].
+    intros st3 X3 HR Hrem HJ cs ms Hrel Himm. destruct (Hsem st3 X3 HR Hrem HJ cs ms Hrel Himm) as [ilv [Sv Hcv]].
     exists (truth (cval_of (pv_ty pc) ilv)). split; [apply cond_ok; assumption|].
-    intros k s1 vc Hce. destruct (Hcv k s1 vc Hce I) as [-> ->]. split; reflexivity.
+    intros k s1 vc Hce. destruct (Hcv k s1 vc Hce) as [-> ->]. split; reflexivity.
   Qed.
 
-  Lemma sinv_if V c t : pfrag V c -> SInv V t V -> SInv V (SIf c t None) V.
+  Lemma sinv_if V c t : pfrag rw IM V c -> SInv V t V -> SInv V (SIf c t None) V.
   Proof.
-    intros Hc IHt st HV Hp Hr.
-    destruct (cond_sim V c st Hc HV) as [pc [st1 [L1 [S1 Hcond]]]].
-    pose proof S1 as [S1v [S1r [S1p [_ [_ [_ S1n]]]]]].
-    assert (HV1 : st_vars st1 = V) by congruence.
-    assert (Hp1 : st_pending st1 = []) by congruence.
-    assert (Hr1 : regs_ok (st_regs st1)) by (rewrite S1r; exact Hr).
-    destruct (IHt st1 HV1 Hp1 Hr1) as [it [st2 [L2 [[V2 [F2 [R2 [Le2 [Pl2 S2]]]]] N2]]]].
-    assert (Hp2 : st_pending st2 = []) by (destruct F2 as [-> _]; exact Hp1).
+    intros Hc IHt st Hok Hp.
+    destruct (cond_sim V c st Hc Hok) as [pc [st1 [L1 [X1 [Hok1 Hcond]]]]].
+    assert (Hp1 : st_pending st1 = []) by (eapply st_ext_pending; eassumption).
+    destruct (IHt st1 Hok1 Hp1) as [it [st2 [L2 [[Hok2 [X2 [Pl2 S2]]] N2]]]].
+    assert (Hp2 : st_pending st2 = []) by (eapply st_ext_pending; eassumption).
     destruct (mk_sequence it) as [tseq ttree] eqn:Emk.
     assert (Ht : le_term tseq = seqn (flat_map item_effects it)) by (rewrite <- mk_sequence_term, Emk; reflexivity).
     exists [IEff (mkle (EBranch (cond_of cfg pc) (le_term tseq) EEmpty) (item_tmps (IPure pc) ++ le_tmps tseq) false)], (touched st2).
@@ -1398,36 +1495,34 @@ Section StmtCorrect.
     { rewrite lower_stmt_if. unfold bind. rewrite L1, L2. unfold if_tail. rewrite Emk. unfold bind. rewrite touch_eq.
       rewrite chk_nil by exact Hp2. unfold ret. rewrite chk_nil by exact Hp2. reflexivity. }
     split; [|reflexivity].
-    split; [exact V2|].
-    split; [eapply frame_trans; [apply st_same_frame; exact S1|]; eapply frame_trans; [exact F2 | apply frame_touched]|].
-    split; [exact R2|]. split; [rewrite <- S1r; exact Le2|]. split; [repeat constructor|].
-    intros R rem HR Hrem cs ms fuel cs' Hrel Hce. rewrite HV in Hrel.
-    destruct (Hcond cs ms (proj1 Hrel)) as [b [Ec Hcb]].
+    split; [apply lst_ok_touched; exact Hok2|].
+    split; [eapply st_ext_trans; [exact X1|]; eapply st_ext_trans; [exact X2 | apply st_ext_touched]|].
+    split; [repeat constructor|].
+    intros HR Hrem HJ cs ms fuel cs' Hrel Himm Hce.
+    destruct (Hcond (touched st2) (st_ext_trans _ _ _ X2 (st_ext_touched st2)) HR Hrem HJ cs ms (proj1 Hrel) Himm) as [b [Ec Hcb]].
     destruct fuel as [|k]; [rewrite cexec_0 in Hce; discriminate Hce|].
-    rewrite cexec_if in Hce by apply Hrel.
+    rewrite cexec_if in Hce by (apply (srel_ret _ _ _ _ _ Hrel)).
     destruct (ceval E csub xi k cs c) as [[s1 vc]|] eqn:Ece; [|discriminate Hce].
     destruct (Hcb k s1 vc Ece) as [-> Hb]. rewrite Hb in Hce.
     cbn [flat_map item_effects le_empty le_term app seqn fin_eff].
     destruct b.
-    - rewrite <- HV1 in Hrel. destruct (S2 R rem HR Hrem cs ms k cs' Hrel Hce) as [ms' [Run Rel]].
-      exists ms'. split; [|exact Rel]. apply runs_branch_inv. left.
-      split; [apply fin_pure_eval; exact Ec | rewrite Ht; exact Run].
-    - injection Hce as <-. exists ms. split; [|exact Hrel]. apply runs_branch_inv. right.
-      split; [apply fin_pure_eval; exact Ec | apply runs_empty; reflexivity].
+    - destruct (S2 HR Hrem HJ cs ms k cs' Hrel Himm Hce) as [ms' [Run [Rel Imm]]].
+      exists ms'. split; [|split; [exact Rel | exact Imm]]. apply runs_branch_inv. left.
+      split; [exact Ec | rewrite Ht; exact Run].
+    - injection Hce as <-. exists ms. split; [|split; [exact Hrel | exact Himm]]. apply runs_branch_inv. right.
+      split; [exact Ec | apply runs_empty; reflexivity].
   Qed.
 
-  Lemma sinv_ifelse V c t f : pfrag V c -> SInv V t V -> SInv V f V -> SInv V (SIf c t (Some f)) V.
+  Lemma sinv_ifelse V c t f : pfrag rw IM V c -> SInv V t V -> SInv V f V -> SInv V (SIf c t (Some f)) V.
   Proof.
-    intros Hc IHt IHf st HV Hp Hr.
-    destruct (cond_sim V c st Hc HV) as [pc [st1 [L1 [S1 Hcond]]]].
-    pose proof S1 as [S1v [S1r [S1p [_ [_ [_ S1n]]]]]].
-    assert (HV1 : st_vars st1 = V) by congruence.
-    assert (Hp1 : st_pending st1 = []) by congruence.
-    assert (Hr1 : regs_ok (st_regs st1)) by (rewrite S1r; exact Hr).
-    destruct (IHt st1 HV1 Hp1 Hr1) as [it [st2 [L2 [[V2 [F2 [R2 [Le2 [Pl2 S2]]]]] N2]]]].
-    assert (Hp2 : st_pending st2 = []) by (destruct F2 as [-> _]; exact Hp1).
-    destruct (IHf (touched st2) V2 Hp2 R2) as [ie [st3 [L3 [[V3 [F3 [R3 [Le3 [Pl3 S3]]]]] N3]]]].
-    assert (Hp3 : st_pending st3 = []) by (destruct F3 as [-> _]; exact Hp2).
+    intros Hc IHt IHf st Hok Hp.
+    destruct (cond_sim V c st Hc Hok) as [pc [st1 [L1 [X1 [Hok1 Hcond]]]]].
+    assert (Hp1 : st_pending st1 = []) by (eapply st_ext_pending; eassumption).
+    destruct (IHt st1 Hok1 Hp1) as [it [st2 [L2 [[Hok2 [X2 [Pl2 S2]]] N2]]]].
+    assert (Hp2 : st_pending st2 = []) by (eapply st_ext_pending; eassumption).
+    destruct (IHf (touched st2) (lst_ok_touched _ _ Hok2) Hp2) as [ie [st3 [L3 [[Hok3 [X3 [Pl3 S3]]] N3]]]].
+    assert (Hp3 : st_pending st3 = []) by (eapply st_ext_pending; [exact X3 | exact Hp2]).
+    assert (X23 : st_ext st2 st3) by (eapply st_ext_trans; [apply st_ext_touched | exact X3]).
     destruct (mk_sequence it) as [tseq ttree] eqn:Emk.
     assert (Ht : le_term tseq = seqn (flat_map item_effects it)) by (rewrite <- mk_sequence_term, Emk; reflexivity).
     destruct (mk_sequence ie) as [eseq etree] eqn:Emke.
@@ -1438,36 +1533,35 @@ Section StmtCorrect.
     { rewrite lower_stmt_if. unfold bind. rewrite L1, L2. unfold if_tail. rewrite Emk. unfold bind. rewrite touch_eq.
       rewrite chk_nil by exact Hp2. rewrite L3. rewrite Emke. unfold bind, ret.
       rewrite chk_nil by exact Hp3. rewrite chk_nil by exact Hp3. reflexivity. }
-    split; [|intros _; destruct F3 as [_ [_ [_ [_ F3]]]]; apply F3; reflexivity].
-    split; [exact V3|].
-    split; [eapply frame_trans; [apply st_same_frame; exact S1|]; eapply frame_trans; [exact F2|];
-            eapply frame_trans; [apply frame_touched | exact F3]|].
-    split; [exact R3|]. split; [rewrite <- S1r; eapply regs_le_trans; [exact Le2 | exact Le3]|]. split; [repeat constructor|].
-    intros R rem HR Hrem cs ms fuel cs' Hrel Hce. rewrite HV in Hrel.
-    destruct (Hcond cs ms (proj1 Hrel)) as [b [Ec Hcb]].
+    split; [|intros _; eapply st_ext_nonempty; [exact X3 | reflexivity]].
+    split; [exact Hok3|].
+    split; [eapply st_ext_trans; [exact X1|]; eapply st_ext_trans; [exact X2 | exact X23]|].
+    split; [repeat constructor|].
+    intros HR Hrem HJ cs ms fuel cs' Hrel Himm Hce.
+    destruct (Hcond st3 (st_ext_trans _ _ _ X2 X23) HR Hrem HJ cs ms (proj1 Hrel) Himm) as [b [Ec Hcb]].
     destruct fuel as [|k]; [rewrite cexec_0 in Hce; discriminate Hce|].
-    rewrite cexec_if in Hce by apply Hrel.
+    rewrite cexec_if in Hce by (apply (srel_ret _ _ _ _ _ Hrel)).
     destruct (ceval E csub xi k cs c) as [[s1 vc]|] eqn:Ece; [|discriminate Hce].
     destruct (Hcb k s1 vc Ece) as [-> Hb]. rewrite Hb in Hce.
     cbn [flat_map item_effects le_empty le_term app seqn fin_eff].
     destruct b.
-    - rewrite <- HV1 in Hrel.
-      destruct (S2 R rem (regs_le_trans _ _ _ Le3 HR) Hrem cs ms k cs' Hrel Hce) as [ms' [Run Rel]].
-      exists ms'. split; [|exact Rel]. apply runs_branch_inv. left.
-      split; [apply fin_pure_eval; exact Ec | rewrite Ht; exact Run].
-    - rewrite <- V2 in Hrel.
-      destruct (S3 R rem HR Hrem cs ms k cs' Hrel Hce) as [ms' [Run Rel]].
-      exists ms'. split; [|exact Rel]. apply runs_branch_inv. right.
-      split; [apply fin_pure_eval; exact Ec | rewrite He; exact Run].
+    - destruct (S2 (regs_le_trans _ _ _ (st_ext_regs _ _ X23) HR) Hrem (incl_tran (st_ext_imms _ _ X23) HJ) cs ms k cs' Hrel Himm Hce)
+        as [ms' [Run [Rel Imm]]].
+      exists ms'. split; [|split; [exact Rel | exact Imm]]. apply runs_branch_inv. left.
+      split; [exact Ec | rewrite Ht; exact Run].
+    - destruct (S3 HR Hrem HJ cs ms k cs' Hrel Himm Hce) as [ms' [Run [Rel Imm]]].
+      exists ms'. split; [|split; [exact Rel | exact Imm]]. apply runs_branch_inv. right.
+      split; [exact Ec | rewrite He; exact Run].
   Qed.
 
   (* ------------------------------------------------------------------ the fragment satisfies the invariant *)
-  Theorem stmt_inv : (forall V s V', sfrag rw V s V' -> SInv V s V') /\ (forall V l V', sfrags rw V l V' -> SsInv V l V').
+  Theorem stmt_inv : (forall V s V', sfrag rw IM V s V' -> SInv V s V') /\ (forall V l V', sfrags rw IM V l V' -> SsInv V l V').
   Proof.
     apply sfrag_mutind.
     - intros. apply (sinv_asg_reg V cls letters acc e); assumption.
     - intros. apply (sinv_asg_var V x sg w e); assumption.
     - intros. apply (sinv_casg_var V a x sg w e); assumption.
+    - intros. apply (sinv_casg_reg V a cls letters acc e); assumption.
     - intros. apply sinv_decl; assumption.
     - apply sinv_empty.
     - apply sinv_nop.
@@ -1483,48 +1577,74 @@ End StmtCorrect.
 
 (* ================================================================== the theorems, for any configuration with all repairs on *)
 
-(* Statement level, function Lower.lower_stmt: from any model state st whose declared variables are V,
-   with no pending hybrid and a register table produced by the fragment (regs_ok; the initial table []
-   qualifies).  The emitted effect is the sequence of the returned items' effects (exactly what
-   mk_sequence / tlower_info build), finalised against ANY later register table R. *)
-Theorem stmt_correct : forall (cfg : config) (rw : regwidth) (ilsubs : subenv) (E : cenv) (csub : csubs) xi V s V' st,
-  cfg_fx cfg = all_fixes -> cfg_params cfg = [] ->
-  st_vars st = V -> st_pending st = [] -> regs_ok (st_regs st) ->
-  sfrag rw V s V' ->
-  exists items st', lower_stmt cfg s st = OK (items, st') /\
-    st_vars st' = V' /\ frame st st' /\ regs_ok (st_regs st') /\ regs_le (st_regs st) (st_regs st') /\
-    Forall plain_item items /\
-    forall R rem, regs_le (st_regs st') R -> norem rem ->
-    forall cs ms fuel cs', srel V cs ms -> cexec E csub xi fuel cs s = Some cs' ->
-      exists ms', runs rw ilsubs (fin_eff R rem (seqn (flat_map item_effects items))) ms ms' /\ srel V' cs' ms'.
+Lemma exists_forall_swap3 {A B X Y Z : Type} (f : res (A * B)) (P : X -> Y -> Z -> A -> B -> Prop) (x0 : X) (y0 : Y) (z0 : Z) :
+  (forall x y z, exists a b, f = OK (a, b) /\ P x y z a b) ->
+  exists a b, f = OK (a, b) /\ forall x y z, P x y z a b.
 Proof.
-  intros cfg rw ilsubs E csub xi V s V' st Hfx Hpar HV Hp Hr Hfrag.
+  intros H.
+  destruct (exists_forall_swap f (fun (t : X * Y * Z) a b => P (fst (fst t)) (snd (fst t)) (snd t) a b) (x0, y0, z0)) as [a [b [L Hp]]].
+  - intros [[x y] z]. exact (H x y z).
+  - exists a, b. split; [exact L|]. intros x y z. exact (Hp (x, y, z)).
+Qed.
+
+(* Statement level, function Lower.lower_stmt: from any model state st of the fragment whose declared
+   locals are V ([lst_ok IM V st]; the initial state qualifies, V = []), with no pending hybrid.  The emitted
+   effect is the sequence of the returned items' effects (exactly what mk_sequence / tlower_info build),
+   finalised against ANY later register table R, run in a state in which ANY later immediate prologue J
+   has been executed. *)
+Theorem stmt_correct : forall (cfg : config) (rw : regwidth) (IM : string -> bool) (ilsubs : subenv) (E : cenv) (csub : csubs) xi V s V' st,
+  cfg_fx cfg = all_fixes -> cfg_params cfg = [] -> im_ok IM ->
+  lst_ok IM V st -> st_pending st = [] ->
+  sfrag rw IM V s V' ->
+  exists items st', lower_stmt cfg s st = OK (items, st') /\
+    lst_ok IM V' st' /\ st_ext st st' /\ Forall plain_item items /\
+    forall R rem J, regs_le (st_regs st') R -> norem rem -> incl (st_imms st') J ->
+    forall cs ms fuel cs', srel IM E V cs ms -> imms_done IM J ms -> cexec E csub xi fuel cs s = Some cs' ->
+      exists ms', runs rw ilsubs (fin_eff R rem (seqn (flat_map item_effects items))) ms ms' /\ srel IM E V' cs' ms' /\ imms_done IM J ms'.
+Proof.
+  intros cfg rw IM ilsubs E csub xi V s V' st Hfx Hpar HIM Hok Hp Hfrag.
   destruct cfg as [fx0 subs macs params cret hstart]. cbn in Hfx, Hpar. subst fx0 params.
-  destruct (proj1 (stmt_inv subs macs cret hstart rw ilsubs E csub xi) V s V' Hfrag st HV Hp Hr)
-    as [items [st' [L [[H1 [H2 [H3 [H4 [H5 H6]]]]] _]]]].
-  exists items, st'. split; [exact L|]. repeat (split; [assumption|]).
-  intros R rem HR Hrem cs ms fuel cs' Hrel Hce. rewrite HV in H6. exact (H6 R rem HR Hrem cs ms fuel cs' Hrel Hce).
+  destruct (exists_forall_swap3 (lower_stmt (mkcfg all_fixes subs macs [] cret hstart) s st)
+              (fun R rem J items st' => lst_ok IM V' st' /\ st_ext st st' /\ Forall plain_item items /\
+                 (regs_le (st_regs st') R -> norem rem -> incl (st_imms st') J ->
+                  forall cs ms fuel cs', srel IM E V cs ms -> imms_done IM J ms -> cexec E csub xi fuel cs s = Some cs' ->
+                    exists ms', runs rw ilsubs (fin_eff R rem (seqn (flat_map item_effects items))) ms ms' /\ srel IM E V' cs' ms' /\ imms_done IM J ms'))
+              (@nil (string * reginfo)) (@nil string) (@nil effect)) as [items [st' [L H]]].
+  - intros R rem J.
+    destruct (proj1 (stmt_inv subs macs cret hstart rw IM HIM R rem J ilsubs E csub xi) V s V' Hfrag st Hok Hp)
+      as [items [st' [L [[H1 [H2 [H3 H6]]] _]]]].
+    exists items, st'. split; [exact L|]. repeat (split; [assumption|]). exact H6.
+  - exists items, st'. split; [exact L|]. destruct (H [] [] []) as [H1 [H2 [H3 _]]]. repeat (split; [assumption|]).
+    intros R rem J. apply (H R rem J).
 Qed.
 Print Assumptions stmt_correct.
 
 (* Statement lists, function Lower.lower_stmts: sequences of any length *)
-Theorem stmts_correct : forall (cfg : config) (rw : regwidth) (ilsubs : subenv) (E : cenv) (csub : csubs) xi V l V' st,
-  cfg_fx cfg = all_fixes -> cfg_params cfg = [] ->
-  st_vars st = V -> st_pending st = [] -> regs_ok (st_regs st) ->
-  sfrags rw V l V' ->
+Theorem stmts_correct : forall (cfg : config) (rw : regwidth) (IM : string -> bool) (ilsubs : subenv) (E : cenv) (csub : csubs) xi V l V' st,
+  cfg_fx cfg = all_fixes -> cfg_params cfg = [] -> im_ok IM ->
+  lst_ok IM V st -> st_pending st = [] ->
+  sfrags rw IM V l V' ->
   exists items st', lower_stmts cfg l st = OK (items, st') /\
-    st_vars st' = V' /\ frame st st' /\ regs_ok (st_regs st') /\ regs_le (st_regs st) (st_regs st') /\
-    Forall plain_item items /\
-    forall R rem, regs_le (st_regs st') R -> norem rem ->
-    forall cs ms fuel cs', srel V cs ms -> cexecs E csub xi fuel cs l = Some cs' ->
-      exists ms', runs rw ilsubs (fin_eff R rem (seqn (flat_map item_effects items))) ms ms' /\ srel V' cs' ms'.
+    lst_ok IM V' st' /\ st_ext st st' /\ Forall plain_item items /\ (started st -> l <> SNil -> st_nonempty st' = true) /\
+    forall R rem J, regs_le (st_regs st') R -> norem rem -> incl (st_imms st') J ->
+    forall cs ms fuel cs', srel IM E V cs ms -> imms_done IM J ms -> cexecs E csub xi fuel cs l = Some cs' ->
+      exists ms', runs rw ilsubs (fin_eff R rem (seqn (flat_map item_effects items))) ms ms' /\ srel IM E V' cs' ms' /\ imms_done IM J ms'.
 Proof.
-  intros cfg rw ilsubs E csub xi V l V' st Hfx Hpar HV Hp Hr Hfrag.
+  intros cfg rw IM ilsubs E csub xi V l V' st Hfx Hpar HIM Hok Hp Hfrag.
   destruct cfg as [fx0 subs macs params cret hstart]. cbn in Hfx, Hpar. subst fx0 params.
-  destruct (proj2 (stmt_inv subs macs cret hstart rw ilsubs E csub xi) V l V' Hfrag st HV Hp Hr)
-    as [items [st' [L [[H1 [H2 [H3 [H4 [H5 H6]]]]] _]]]].
-  exists items, st'. split; [exact L|]. repeat (split; [assumption|]).
-  intros R rem HR Hrem cs ms fuel cs' Hrel Hce. rewrite HV in H6. exact (H6 R rem HR Hrem cs ms fuel cs' Hrel Hce).
+  destruct (exists_forall_swap3 (lower_stmts (mkcfg all_fixes subs macs [] cret hstart) l st)
+              (fun R rem J items st' => lst_ok IM V' st' /\ st_ext st st' /\ Forall plain_item items /\
+                 (started st -> l <> SNil -> st_nonempty st' = true) /\
+                 (regs_le (st_regs st') R -> norem rem -> incl (st_imms st') J ->
+                  forall cs ms fuel cs', srel IM E V cs ms -> imms_done IM J ms -> cexecs E csub xi fuel cs l = Some cs' ->
+                    exists ms', runs rw ilsubs (fin_eff R rem (seqn (flat_map item_effects items))) ms ms' /\ srel IM E V' cs' ms' /\ imms_done IM J ms'))
+              (@nil (string * reginfo)) (@nil string) (@nil effect)) as [items [st' [L H]]].
+  - intros R rem J.
+    destruct (proj2 (stmt_inv subs macs cret hstart rw IM HIM R rem J ilsubs E csub xi) V l V' Hfrag st Hok Hp)
+      as [items [st' [L [[H1 [H2 [H3 H6]]] N]]]].
+    exists items, st'. split; [exact L|]. repeat (split; [assumption|]). exact H6.
+  - exists items, st'. split; [exact L|]. destruct (H [] [] []) as [H1 [H2 [H3 [H4 _]]]]. repeat (split; [assumption|]).
+    intros R rem J. apply (H R rem J).
 Qed.
 Print Assumptions stmts_correct.
 
@@ -1532,53 +1652,119 @@ Lemma plain_not_dropped items : Forall plain_item items ->
   existsb (fun i => match i with ITree _ | ITok _ => true | _ => false end) items = false.
 Proof. induction 1 as [|i t Hi _ IH]; [reflexivity|]. cbn [existsb]. rewrite IH. destruct i; cbn in Hi; try contradiction; reflexivity. Qed.
 
-Lemma norem_nil : norem [].
-Proof. intros n. reflexivity. Qed.
+(* ------------------------------------------------------------------ the immediate prologue *)
+(* tlower_info keeps every prologue entry whose immediate is still declared: all of them, in the fragment *)
+Lemma imms_kept (IM : string -> bool) (vars : list (string * option vtype)) (l : list effect) :
+  Forall (fun e => exists x, IM x = true /\ e = imm_entry x /\ lookup x vars = Some (Some (imm_ty x))) l ->
+  map (fun e => match e with
+                | ESetL x (PImm _ _ _) => if existsb (fun v => String.eqb (fst v) x) vars then e else ESetL x (PRaw x)
+                | _ => e end) l = l.
+Proof.
+  induction 1 as [|e t [x [_ [-> Hx]]] _ IH]; [reflexivity|]. cbn [map imm_entry].
+  rewrite (lookup_some_existsb x vars _ Hx), IH. reflexivity.
+Qed.
+
+Lemma srel_set_imm IM E V cs ms x : im_ok IM -> srel IM E V cs ms -> IM x = true ->
+  srel IM E V cs (set_local ms x (VBv 32 (wrap 32 (imms ms x)))).
+Proof.
+  intros [HI1 HI2] [[R1 [R2 [R3 [R4 [R5 R6]]]]] [H2 [H3 [H4 [H5 [H6 H7]]]]]] Hx.
+  assert (Hr : reserved IM x) by (right; right; left; exact Hx).
+  split; [|split].
+  - unfold rel. cbn [locals rnew rold rnew0 imms set_local]. split; [|auto 10].
+    intros y sg w Hy Hw. cbn [lookup].
+    destruct (String.eqb_spec y x) as [->|_]; [rewrite (H5 x Hr) in Hy; discriminate Hy|]. exact (R1 y sg w Hy Hw).
+  - intros y Hy Hyr. cbn [locals set_local lookup].
+    destruct (String.eqb_spec y x) as [->|_]; [contradiction | exact (H2 y Hy Hyr)].
+  - cbn [mem set_local]. repeat (split; [assumption|]). split.
+    + unfold jrel in *. cbn [locals set_local lookup].
+      destruct (String.eqb_spec "jump_flag" x) as [<-|_]; [congruence|].
+      destruct (String.eqb_spec "jump_target" x) as [<-|_]; [congruence|]. exact H6.
+    + intros l Hl. cbn [locals set_local lookup imms].
+      destruct (String.eqb_spec l x) as [->|_]; [right; reflexivity | exact (H7 l Hl)].
+Qed.
+
+Lemma imms_done_set_imm IM J ms x : imms_done IM J ms -> imms_done IM J (set_local ms x (VBv 32 (wrap 32 (imms ms x)))).
+Proof.
+  intros H l Hl Hin. cbn [locals set_local lookup imms].
+  destruct (String.eqb_spec l x) as [->|_]; [reflexivity | exact (H l Hl Hin)].
+Qed.
+
+Lemma imm_entry_inj x y : imm_entry x = imm_entry y -> x = y.
+Proof. unfold imm_entry. intros H. injection H. auto. Qed.
+
+(* running the prologue from a related state: the immediates' locals get their encoded values *)
+Lemma run_prologue rw IM ilsubs E R rem V cs (l : list effect) : im_ok IM ->
+  Forall (fun e => exists x, IM x = true /\ e = imm_entry x) l ->
+  forall ms, srel IM E V cs ms ->
+    exists ms1, runs rw ilsubs (seqn (map (fin_eff R rem) l)) ms ms1 /\ srel IM E V cs ms1 /\ imms_done IM l ms1 /\
+                (forall J, imms_done IM J ms -> imms_done IM J ms1).
+Proof.
+  intros HIM. induction 1 as [|e t [x [Hx ->]] _ IH]; intros ms Hrel.
+  - exists ms. split; [apply runs_empty; reflexivity|]. split; [exact Hrel|]. split; [intros l0 _ []|auto].
+  - set (ms0 := set_local ms x (VBv 32 (wrap 32 (imms ms x)))).
+    assert (Hrel0 : srel IM E V cs ms0) by (apply srel_set_imm; assumption).
+    destruct (IH ms0 Hrel0) as [ms1 [Run [Rel1 [Done1 Pres1]]]].
+    exists ms1. split; [|split; [exact Rel1|split]].
+    + cbn [map]. apply runs_seqn_cons. exists ms0. split; [|exact Run].
+      cbn [imm_entry fin_eff fin_pure]. exists 1%nat. cbn [exec eval].
+      destruct Hrel as [_ [_ [_ [_ [_ [_ H7]]]]]]. destruct (H7 x Hx) as [-> | ->]; reflexivity.
+    + intros y Hy [Hin | Hin].
+      * apply imm_entry_inj in Hin. subst y.
+        apply (Pres1 [imm_entry x]); [|exact Hy | left; reflexivity].
+        intros z _ [Hz | []]. apply imm_entry_inj in Hz. subst z. unfold ms0. cbn [locals set_local lookup imms].
+        rewrite String.eqb_refl. reflexivity.
+      * exact (Done1 y Hy Hin).
+    + intros J0 HJ0. apply Pres1. apply imms_done_set_imm. exact HJ0.
+Qed.
 
 (* Top level, functions Lower.tlower_info / Lower.tlower INCLUDING the final wrapping (immediate
    prologue, hoisted leftovers, the emptiness test, finalisation of register operands against the
    final register table): a whole behaviour of the fragment, started in the initial model state.
    Besides the simulation: the hybrid counter is untouched, nothing is left over, nothing is dropped. *)
-Theorem tlower_correct : forall (cfg : config) (rw : regwidth) (ilsubs : subenv) (E : cenv) (csub : csubs) xi prog V',
-  cfg_fx cfg = all_fixes -> cfg_params cfg = [] ->
-  sfrags rw [] prog V' ->
+Theorem tlower_correct : forall (cfg : config) (rw : regwidth) (IM : string -> bool) (ilsubs : subenv) (E : cenv) (csub : csubs) xi prog V',
+  cfg_fx cfg = all_fixes -> cfg_params cfg = [] -> im_ok IM ->
+  sfrags rw IM [] prog V' ->
   exists eff, tlower_info cfg prog = OK (mkti eff (cfg_hstart cfg) 0 false []) /\
     tlower cfg prog = OK (eff, cfg_hstart cfg) /\
-    forall cs ms fuel cs', srel [] cs ms -> cexecs E csub xi fuel cs prog = Some cs' ->
-      exists ms', runs rw ilsubs eff ms ms' /\ srel V' cs' ms'.
+    forall cs ms fuel cs', srel IM E [] cs ms -> cexecs E csub xi fuel cs prog = Some cs' ->
+      exists ms', runs rw ilsubs eff ms ms' /\ srel IM E V' cs' ms'.
 Proof.
-  intros cfg rw ilsubs E csub xi prog V' Hfx Hpar Hfrag.
-  destruct cfg as [fx0 subs macs params cret hstart]. cbn in Hfx, Hpar. subst fx0 params.
-  set (cfg := mkcfg all_fixes subs macs [] cret hstart).
-  destruct (proj2 (stmt_inv subs macs cret hstart rw ilsubs E csub xi) [] prog V' Hfrag (init_state cfg) eq_refl eq_refl regs_ok_nil)
-    as [items [st' [L [[H1 [H2 [H3 [H4 [H5 H6]]]]] N]]]].
-  fold cfg in L.
-  destruct H2 as [Fp [Fh [Fi [Fr _]]]]. cbn [init_state st_pending st_hcount st_imms st_removed] in Fp, Fh, Fi, Fr.
+  intros cfg rw IM ilsubs E csub xi prog V' Hfx Hpar HIM Hfrag.
+  destruct (stmts_correct cfg rw IM ilsubs E csub xi [] prog V' (init_state cfg) Hfx Hpar HIM (lst_ok_init IM cfg) eq_refl Hfrag)
+    as [items [st' [L [Hok [X [H5 [N H6]]]]]]].
+  destruct X as [Fp [Fh [_ [Fr _]]]]. cbn [init_state st_pending st_hcount st_removed] in Fp, Fh, Fr.
   destruct prog as [|s t].
   - (* the empty behaviour *)
     inversion Hfrag; subst. exists ENop. split; [reflexivity|]. split; [reflexivity|].
     intros cs ms fuel cs' Hrel Hce. destruct fuel as [|k]; [discriminate Hce|]. cbn in Hce. injection Hce as <-.
     exists ms. split; [apply runs_nop; reflexivity | exact Hrel].
   - assert (Hne : st_nonempty st' = true) by (apply N; [right; split; reflexivity | discriminate]).
-    exists (fin_eff (st_regs st') [] (seqn (flat_map item_effects items))).
+    exists (fin_eff (st_regs st') [] (seqn (st_imms st' ++ flat_map item_effects items))).
     assert (Hinfo : tlower_info cfg (SCons s t) =
-                    OK (mkti (fin_eff (st_regs st') [] (seqn (flat_map item_effects items))) hstart 0 false [])).
-    { unfold tlower_info. rewrite L. rewrite (plain_not_dropped items H5), Hne, Fp, Fi, Fh, Fr. reflexivity. }
+                    OK (mkti (fin_eff (st_regs st') [] (seqn (st_imms st' ++ flat_map item_effects items))) (cfg_hstart cfg) 0 false [])).
+    { unfold tlower_info. rewrite L. rewrite (plain_not_dropped items H5), Hne, Fp, Fh, Fr. cbn [negb map app List.length].
+      rewrite (imms_kept IM (st_vars st') (st_imms st') (proj1 (proj2 (proj2 (proj2 Hok))))). reflexivity. }
     split; [exact Hinfo|]. split; [unfold tlower; rewrite Hinfo; reflexivity|].
     intros cs ms fuel cs' Hrel Hce.
-    exact (H6 (st_regs st') [] (regs_le_refl _) norem_nil cs ms fuel cs' Hrel Hce).
+    assert (Hwf : Forall (fun e => exists x, IM x = true /\ e = imm_entry x) (st_imms st')).
+    { eapply Forall_impl; [|exact (proj1 (proj2 (proj2 (proj2 Hok))))]. intros e [x [A [B _]]]. eauto. }
+    destruct (run_prologue rw IM ilsubs E (st_regs st') [] [] cs (st_imms st') HIM Hwf ms Hrel) as [ms1 [Run1 [Rel1 [Done1 _]]]].
+    destruct (H6 (st_regs st') [] (st_imms st') (regs_le_refl _) norem_nil (incl_refl _) cs ms1 fuel cs' Rel1 Done1 Hce)
+      as [ms' [Run2 [Rel2 _]]].
+    exists ms'. split; [|exact Rel2].
+    rewrite fin_eff_seqn, map_app. apply runs_seqn_app. exists ms1. rewrite <- (fin_eff_seqn _ _ (flat_map _ _)). split; assumption.
 Qed.
 Print Assumptions tlower_correct.
 
 (* the same with the fuel of the IL interpreter made explicit: every sufficiently large fuel works *)
-Corollary tlower_correct_fuel : forall (cfg : config) (rw : regwidth) (ilsubs : subenv) (E : cenv) (csub : csubs) xi prog V' eff h,
-  cfg_fx cfg = all_fixes -> cfg_params cfg = [] ->
-  sfrags rw [] prog V' -> tlower cfg prog = OK (eff, h) ->
-  forall cs ms fuel cs', srel [] cs ms -> cexecs E csub xi fuel cs prog = Some cs' ->
-    exists n ms', (forall fuel', (n <= fuel')%nat -> exec rw ilsubs fuel' eff ms = Some ms') /\ srel V' cs' ms'.
+Corollary tlower_correct_fuel : forall (cfg : config) (rw : regwidth) (IM : string -> bool) (ilsubs : subenv) (E : cenv) (csub : csubs) xi prog V' eff h,
+  cfg_fx cfg = all_fixes -> cfg_params cfg = [] -> im_ok IM ->
+  sfrags rw IM [] prog V' -> tlower cfg prog = OK (eff, h) ->
+  forall cs ms fuel cs', srel IM E [] cs ms -> cexecs E csub xi fuel cs prog = Some cs' ->
+    exists n ms', (forall fuel', (n <= fuel')%nat -> exec rw ilsubs fuel' eff ms = Some ms') /\ srel IM E V' cs' ms'.
 Proof.
-  intros cfg rw ilsubs E csub xi prog V' eff h Hfx Hpar Hfrag Hlow cs ms fuel cs' Hrel Hce.
-  destruct (tlower_correct cfg rw ilsubs E csub xi prog V' Hfx Hpar Hfrag) as [eff0 [_ [Hlow0 Hsim]]].
+  intros cfg rw IM ilsubs E csub xi prog V' eff h Hfx Hpar HIM Hfrag Hlow cs ms fuel cs' Hrel Hce.
+  destruct (tlower_correct cfg rw IM ilsubs E csub xi prog V' Hfx Hpar HIM Hfrag) as [eff0 [_ [Hlow0 Hsim]]].
   rewrite Hlow0 in Hlow. injection Hlow as <- _.
   destruct (Hsim cs ms fuel cs' Hrel Hce) as [ms' [[n Hn] Hrel']].
   exists n, ms'. split; [|exact Hrel'].
@@ -1590,6 +1776,8 @@ Print Assumptions tlower_correct_fuel.
 Module Example.
   Definition num (v : Z) := EOp (ONum v false "").
   Definition var (x : string) := EOp (OIdent x).
+  Definition reg (cls letters : string) := EOp (OReg cls letters).
+  Definition imm (l : string) := EOp (OImm l).
   (*  int32_t x = 5;
       size1u_t b = 250;
       if (x > 3) { RdV = x + 1; JUMP(x * 4); } else RdV = -x;
@@ -1612,41 +1800,55 @@ Module Example.
   Definition env : cenv := mkce (fun _ => 0) (fun _ => 0) (fun _ => 0) 0 (fun _ => 0).
   Definition nosubs : csubs := fun _ => None.
   Definition noxi : string -> bool -> option (regop * N) := fun _ _ => None.
-  Definition ms0 : mstate :=
-    {| locals := []; rold := fun _ => 0; rnew := []; rnew0 := fun _ => 0; imms := fun _ => 0;
-       pktaddr := 0; mem := []; mem0 := fun _ => 0; events := [] |}.
+  (* the IL machine state that starts from the operand environment E, before the instruction has done anything *)
+  Definition ms_of (E : cenv) : mstate :=
+    {| locals := []; rold := ce_rold E; rnew := []; rnew0 := ce_rnew0 E; imms := ce_imms E;
+       pktaddr := ce_pktaddr E; mem := []; mem0 := ce_mem0 E; events := [] |}.
+  Definition ms0 : mstate := ms_of env.
   Definition Vx : list (string * option vtype) := [("x", Some (ty_int true 32)); ("b", Some (ty_int false 8))].
 
   Ltac pf :=
     repeat first
       [ eapply pf_num; [lia | reflexivity]
       | eapply pf_ident; [reflexivity | unfold okw; auto]
+      | eapply (pf_reg _ _ _ "R" "s" AR); [left; reflexivity | reflexivity | reflexivity]
+      | eapply (pf_reg _ _ _ "R" "t" AR); [left; reflexivity | reflexivity | reflexivity]
+      | eapply (pf_reg _ _ _ "R" "d" AW); [left; reflexivity | reflexivity | reflexivity]
+      | apply pf_imm; reflexivity
       | apply pf_bin; [unfold is_folding_op, is_plain_op, is_cmp; auto 15 | | ]
       | apply pf_un; [auto | ] ].
 
-  Ltac not_reserved := intros [Hres | Hres]; discriminate Hres.
+  Ltac not_reserved := intros [Hres | [Hres | [Hres | Hres]]]; try discriminate Hres; vm_compute in Hres; discriminate Hres.
 
-  Example prog_in_fragment : sfrags rw [] prog Vx.
+  (* every operand environment is related to its initial machine state *)
+  Lemma srel_init IM E : srel IM E [] cs0 (ms_of E).
+  Proof.
+    split; [|split; [reflexivity|]].
+    - unfold rel. cbn. split; [intros x sg w H; discriminate H|]. auto 10.
+    - cbn. repeat split; try reflexivity. intros l _. left. reflexivity.
+  Qed.
+
+  Example prog_in_fragment : sfrags rw imm_letter [] prog Vx.
   Proof.
     unfold prog, Vx.
     eapply sfs_cons.
-    { eapply (sf_decl rw [] [TS_intN true 32] true 32 "x"); [left; left; auto | reflexivity | not_reserved | unfold num; pf]. }
+    { eapply (sf_decl rw imm_letter [] [TS_intN true 32] true 32 "x"); [left; left; auto | reflexivity | not_reserved | unfold num; pf]. }
     cbn [app].
     eapply sfs_cons.
-    { eapply (sf_decl rw _ [TS_sizeN 1 false] false 8 "b");
+    { eapply (sf_decl rw imm_letter _ [TS_sizeN 1 false] false 8 "b");
         [right; exists 1%N; unfold okw; auto | reflexivity | not_reserved | unfold num; pf]. }
     cbn [app].
     eapply sfs_cons.
     { apply sf_ifelse.
       - unfold var, num. pf.
       - apply sf_block. eapply sfs_cons.
-        { eapply (sf_asg_reg rw _ "R" "d" AW); [left; reflexivity | reflexivity | reflexivity | unfold var, num; pf]. }
+        { eapply (sf_asg_reg rw imm_letter _ "R" "d" AW); [left; reflexivity | reflexivity | reflexivity | unfold var, num; pf]. }
         eapply sfs_cons; [|apply sfs_nil]. apply sf_jump. unfold var, num. pf.
-      - eapply (sf_asg_reg rw _ "R" "d" AW); [left; reflexivity | reflexivity | reflexivity | unfold var; pf]. }
+      - eapply (sf_asg_reg rw imm_letter _ "R" "d" AW); [left; reflexivity | reflexivity | reflexivity | unfold var; pf]. }
     eapply sfs_cons.
-    { eapply (sf_asg_var rw _ "x" true 32); [reflexivity | auto | unfold var, num; pf]. }
+    { eapply (sf_asg_var rw imm_letter _ "x" true 32); [reflexivity | auto | unfold var, num; pf]. }
     eapply sfs_cons.
-    { eapply (sf_casg_var rw _ AAdd "b" false 8); [auto | reflexivity | unfold okw; auto | unfold var; pf]. }
+    { eapply (sf_casg_var rw imm_letter _ AAdd "b" false 8); [auto | reflexivity | unfold okw; auto | unfold var; pf]. }
     eapply sfs_cons; [|apply sfs_nil].
     apply sf_store; [unfold okw; auto | unfold var, num; pf | unfold var; pf].
   Qed.
@@ -1654,15 +1856,14 @@ Module Example.
   (* the premises of tlower_correct are satisfiable: configuration, related initial states, and a
      terminating C execution *)
   Example premises_satisfiable :
-    cfg_fx cfg = all_fixes /\ cfg_params cfg = [] /\ srel [] cs0 ms0 /\
+    cfg_fx cfg = all_fixes /\ cfg_params cfg = [] /\ srel imm_letter env [] cs0 ms0 /\
     exists cs', cexecs env nosubs noxi 20 cs0 prog = Some cs' /\
                 lookup "x" (cs_vars cs') = Some ((true, 32%N), Some 10) /\
                 lookup "b" (cs_vars cs') = Some ((false, 8%N), Some 4) /\
                 cs_regw cs' = [(RIsa "R" "d" false, 6)] /\ cs_mem cs' = [(15, 0); (14, 4)] /\ cs_jump cs' = Some 20.
   Proof.
-    split; [reflexivity|]. split; [reflexivity|]. split.
-    - split; [intros x sg w H; discriminate H|]. split; [reflexivity|]. repeat split; reflexivity.
-    - eexists. split; [vm_compute; reflexivity|]. repeat split; reflexivity.
+    split; [reflexivity|]. split; [reflexivity|]. split; [apply srel_init|].
+    eexists. split; [vm_compute; reflexivity|]. repeat split; reflexivity.
   Qed.
 
   (* what the compiler model emits for it (the function the theorem is about), and the theorem applied *)
@@ -1684,13 +1885,153 @@ Module Example.
 
   Example prog_simulated : forall ilsubs,
     exists eff cs' ms', tlower cfg prog = OK (eff, 0%N) /\
-      cexecs env nosubs noxi 20 cs0 prog = Some cs' /\ runs rw ilsubs eff ms0 ms' /\ srel Vx cs' ms'.
+      cexecs env nosubs noxi 20 cs0 prog = Some cs' /\ runs rw ilsubs eff ms0 ms' /\ srel imm_letter env Vx cs' ms'.
   Proof.
     intros ilsubs.
-    destruct (tlower_correct cfg rw ilsubs env nosubs noxi prog Vx eq_refl eq_refl prog_in_fragment) as [eff [_ [Hl Hsim]]].
+    destruct (tlower_correct cfg rw imm_letter ilsubs env nosubs noxi prog Vx eq_refl eq_refl im_ok_letters prog_in_fragment) as [eff [_ [Hl Hsim]]].
     destruct premises_satisfiable as [_ [_ [Hrel [cs' [Hc _]]]]].
     destruct (Hsim cs0 ms0 20%nat cs' Hrel Hc) as [ms' [Hrun Hrel']].
     exists eff, cs', ms'. auto.
+  Qed.
+
+  (* ------------------------------------------------------------------ second program: register operands and an immediate
+        int32_t t = RsV + siV;
+        if (t > RtV) { RdV = t; } else { RdV = RtV - 1; }
+        mem_store_u32(RsV, RdV);            (RdV read back after it was written)
+     run with RsV = 1000, RtV = 2000, siV = -7: t = 993, the else branch writes RdV = 1999, which is stored at 1000 *)
+  Definition prog2 : cstmts :=
+    SCons (SDecl [TS_intN true 32] "t" (Some (EBin Ast.BAdd (reg "R" "s") (imm "s"))))
+   (SCons (SIf (EBin BGt (var "t") (reg "R" "t"))
+               (SBlock (SCons (SExpr (EAssign AAssign (reg "R" "d") (var "t"))) SNil))
+               (Some (SBlock (SCons (SExpr (EAssign AAssign (reg "R" "d") (EBin Ast.BSub (reg "R" "t") (num 1)))) SNil))))
+   (SCons (SStore false 32 (ECons (reg "R" "s") (ECons (reg "R" "d") ENil))) SNil)).
+  Definition Vt : list (string * option vtype) := [("t", Some (ty_int true 32))].
+  Definition env2 : cenv :=
+    mkce (fun r => if regop_eqb r (RIsa "R" "s" false) then 1000 else if regop_eqb r (RIsa "R" "t" false) then 2000 else 77)
+         (fun _ => 0) (fun l => if String.eqb l "s" then -7 else 0) 0 (fun _ => 0).
+
+  Example prog2_in_fragment : sfrags rw imm_letter [] prog2 Vt.
+  Proof.
+    unfold prog2, Vt.
+    eapply sfs_cons.
+    { eapply (sf_decl rw imm_letter [] [TS_intN true 32] true 32 "t"); [left; left; auto | reflexivity | not_reserved | unfold reg, imm; pf]. }
+    cbn [app].
+    eapply sfs_cons.
+    { apply sf_ifelse.
+      - unfold var, reg. pf.
+      - apply sf_block. eapply sfs_cons; [|apply sfs_nil].
+        eapply (sf_asg_reg rw imm_letter _ "R" "d" AW); [left; reflexivity | reflexivity | reflexivity | unfold var; pf].
+      - apply sf_block. eapply sfs_cons; [|apply sfs_nil].
+        eapply (sf_asg_reg rw imm_letter _ "R" "d" AW); [left; reflexivity | reflexivity | reflexivity | unfold reg, num; pf]. }
+    eapply sfs_cons; [|apply sfs_nil].
+    apply sf_store; [unfold okw; auto | unfold reg; pf | unfold reg; pf].
+  Qed.
+
+  Example premises2_satisfiable :
+    cfg_fx cfg = all_fixes /\ cfg_params cfg = [] /\ srel imm_letter env2 [] cs0 (ms_of env2) /\
+    exists cs', cexecs env2 nosubs noxi 20 cs0 prog2 = Some cs' /\
+                lookup "t" (cs_vars cs') = Some ((true, 32%N), Some 993) /\
+                cs_regw cs' = [(RIsa "R" "d" false, 1999)] /\
+                cs_mem cs' = [(1003, 0); (1002, 0); (1001, 7); (1000, 207)].
+  Proof.
+    split; [reflexivity|]. split; [reflexivity|]. split; [apply srel_init|].
+    eexists. split; [vm_compute; reflexivity|]. repeat split; reflexivity.
+  Qed.
+
+  (* the immediate prologue comes first; source operands are READ_REG(op, false); the destination operand read
+     back in the store is READ_REG(op, true), the new bank *)
+  Example prog2_lowered :
+    tlower cfg prog2 =
+    OK (ESeq (ESetL "s" (PImm "s" true 32))
+       (ESeq (ESetL "t" (PBin RzIL.BAdd (PReg (RIsa "R" "s" false) false) (PVarL "s")))
+       (ESeq (EBranch (PCmp CSgt (PVarL "t") (PReg (RIsa "R" "t" false) false))
+                      (EWriteReg (RIsa "R" "d" false) (PVarL "t"))
+                      (EWriteReg (RIsa "R" "d" false) (PBin RzIL.BSub (PReg (RIsa "R" "t" false) false) (PBv true 32 1))))
+             (EStore (PReg (RIsa "R" "s" false) false) (PCast 32 (PBool false) (PReg (RIsa "R" "d" false) true))))), 0%N).
+  Proof. vm_compute. reflexivity. Qed.
+
+  Example prog2_simulated : forall ilsubs,
+    exists eff cs' ms', tlower cfg prog2 = OK (eff, 0%N) /\
+      cexecs env2 nosubs noxi 20 cs0 prog2 = Some cs' /\ runs rw ilsubs eff (ms_of env2) ms' /\ srel imm_letter env2 Vt cs' ms' /\
+      rnew ms' = [(RIsa "R" "d" false, 1999)] /\ mem ms' = [(1003, 0); (1002, 0); (1001, 7); (1000, 207)].
+  Proof.
+    intros ilsubs.
+    destruct (tlower_correct cfg rw imm_letter ilsubs env2 nosubs noxi prog2 Vt eq_refl eq_refl im_ok_letters prog2_in_fragment) as [eff [_ [Hl Hsim]]].
+    destruct premises2_satisfiable as [_ [_ [Hrel [cs' [Hc [_ [Hr Hm]]]]]]].
+    destruct (Hsim cs0 (ms_of env2) 20%nat cs' Hrel Hc) as [ms' [Hrun Hrel']].
+    exists eff, cs', ms'. repeat (split; [assumption|]).
+    destruct Hrel' as [[_ [Hregw _]] [_ [Hmem _]]]. split; congruence.
+  Qed.
+
+  (* ------------------------------------------------------------------ third program: predicates, pairs, .new operands,
+     a read-write operand; the width environment gives every operand handle the width of the operand
+        if (PuN) { RddV = RssV; } else { RddV = RttV + 1; }
+        if (PvV) RxV = RxV + NsN;                                                                       *)
+  Definition nreg (cls letters : string) := EOp (ONewReg cls letters).
+  Definition prog3 : cstmts :=
+    SCons (SIf (nreg "P" "u")
+               (SBlock (SCons (SExpr (EAssign AAssign (reg "R" "dd") (reg "R" "ss"))) SNil))
+               (Some (SBlock (SCons (SExpr (EAssign AAssign (reg "R" "dd") (EBin Ast.BAdd (reg "R" "tt") (num 1)))) SNil))))
+   (SCons (SIf (reg "P" "v") (SExpr (EAssign AAssign (reg "R" "x") (EBin Ast.BAdd (reg "R" "x") (nreg "N" "s")))) None) SNil).
+  Definition rw3 : regwidth := fun r =>
+    match r with
+    | RIsa "P" _ _ => 8%N
+    | RIsa "R" l false => if existsb (String.eqb l) ["d"; "s"; "t"] then 64%N else 32%N
+    | _ => 32%N
+    end.
+  Definition env3 : cenv :=
+    mkce (fun r => if regop_eqb r (RIsa "R" "t" false) then 18446744073709551615       (* RttV = -1 *)
+                   else if regop_eqb r (RIsa "R" "x" false) then 40 else if regop_eqb r (RIsa "P" "v" false) then 255 else 3)
+         (fun r => if regop_eqb r (RNreg "s") then 2 else 0)                            (* PuN = 0, NsN = 2 *)
+         (fun _ => 0) 0 (fun _ => 0).
+
+  Example prog3_in_fragment : sfrags rw3 imm_letter [] prog3 [].
+  Proof.
+    unfold prog3.
+    eapply sfs_cons.
+    { apply sf_ifelse.
+      - eapply (pf_newreg _ _ _ "P" "u" AR); [left; right; left; reflexivity | reflexivity | reflexivity].
+      - apply sf_block. eapply sfs_cons; [|apply sfs_nil].
+        eapply (sf_asg_reg rw3 imm_letter _ "R" "dd" APW); [left; reflexivity | reflexivity | reflexivity |].
+        eapply (pf_reg _ _ _ "R" "ss" APR); [left; reflexivity | reflexivity | reflexivity].
+      - apply sf_block. eapply sfs_cons; [|apply sfs_nil].
+        eapply (sf_asg_reg rw3 imm_letter _ "R" "dd" APW); [left; reflexivity | reflexivity | reflexivity |].
+        apply pf_bin; [unfold is_folding_op; auto | | unfold num; pf].
+        eapply (pf_reg _ _ _ "R" "tt" APR); [left; reflexivity | reflexivity | reflexivity]. }
+    eapply sfs_cons; [|apply sfs_nil].
+    apply sf_if.
+    - eapply (pf_reg _ _ _ "P" "v" AR); [right; left; reflexivity | reflexivity | reflexivity].
+    - eapply (sf_asg_reg rw3 imm_letter _ "R" "x" ARW); [left; reflexivity | reflexivity | reflexivity |].
+      apply pf_bin; [unfold is_folding_op; auto | | ].
+      + eapply (pf_reg _ _ _ "R" "x" ARW); [left; reflexivity | reflexivity | reflexivity].
+      + eapply (pf_newreg _ _ _ "N" "s" AR); [right; split; reflexivity | reflexivity | reflexivity].
+  Qed.
+
+  Example prog3_lowered :
+    tlower cfg prog3 =
+    OK (ESeq (EBranch (PNonZero (PReg (RIsa "P" "u" true) true))
+                      (EWriteReg (RIsa "R" "d" false) (PReg (RIsa "R" "s" false) false))
+                      (EWriteReg (RIsa "R" "d" false)
+                         (PBin RzIL.BAdd (PReg (RIsa "R" "t" false) false)
+                                         (PCast 64 (PMsb (PBv true 32 1)) (PBv true 32 1)))))
+             (EBranch (PNonZero (PReg (RIsa "P" "v" false) false))
+                      (EWriteReg (RIsa "R" "x" false) (PBin RzIL.BAdd (PReg (RIsa "R" "x" false) false) (PReg (RNreg "s") true)))
+                      EEmpty), 0%N).
+  Proof. vm_compute. reflexivity. Qed.
+
+  Example prog3_simulated : forall ilsubs,
+    exists eff cs' ms', tlower cfg prog3 = OK (eff, 0%N) /\
+      cexecs env3 nosubs noxi 20 cs0 prog3 = Some cs' /\ runs rw3 ilsubs eff (ms_of env3) ms' /\ srel imm_letter env3 [] cs' ms' /\
+      rnew ms' = [(RIsa "R" "x" false, 42); (RIsa "R" "d" false, 0)].      (* RddV = -1 + 1 = 0; RxV = 40 + 2 *)
+  Proof.
+    intros ilsubs.
+    destruct (tlower_correct cfg rw3 imm_letter ilsubs env3 nosubs noxi prog3 [] eq_refl eq_refl im_ok_letters prog3_in_fragment) as [eff [_ [Hl Hsim]]].
+    assert (Hc : exists cs', cexecs env3 nosubs noxi 20 cs0 prog3 = Some cs' /\ cs_regw cs' = [(RIsa "R" "x" false, 42); (RIsa "R" "d" false, 0)]).
+    { eexists. split; [vm_compute; reflexivity | reflexivity]. }
+    destruct Hc as [cs' [Hc Hr]].
+    destruct (Hsim cs0 (ms_of env3) 20%nat cs' (srel_init imm_letter env3) Hc) as [ms' [Hrun Hrel']].
+    exists eff, cs', ms'. repeat (split; [assumption|]).
+    destruct Hrel' as [[_ [Hregw _]] _]. congruence.
   Qed.
 
   (* Why sf_decl demands a FRESH name.  Legal C with two disjoint block scopes:
@@ -1716,6 +2057,141 @@ Module Example.
     split; [vm_compute; reflexivity|]. split; [vm_compute; reflexivity|]. split; [|vm_compute; reflexivity].
     intros e h H. vm_compute in H. injection H as <- _. vm_compute. reflexivity.
   Qed.
+
+  (* Why the fragment reserves the letters of the immediates a behaviour uses (IM) as names of locals.  The model keeps
+     immediates and declared locals in ONE table keyed by the bare letter, C does not:
+        { int32_t s = 5; RdV = siV; }          with siV = 9
+     C11 (CSem) gives RdV = 9 (the immediate).  The model (all repairs on) finds the local `s` when it lowers
+     `siV`, emits no prologue and reads the local: the emitted effect writes 5.  In the other order
+        { RdV = siV; int32_t s = 5; ReV = siV; }
+     the declaration overwrites the RzIL local of the immediate: ReV gets 5 instead of 9. *)
+  Definition env9 : cenv := mkce (fun _ => 0) (fun _ => 0) (fun l => if String.eqb l "s" then 9 else 0) 0 (fun _ => 0).
+  Definition clash1 : cstmts :=
+    SCons (SDecl [TS_intN true 32] "s" (Some (num 5)))
+   (SCons (SExpr (EAssign AAssign (reg "R" "d") (imm "s"))) SNil).
+  Definition clash2 : cstmts :=
+    SCons (SExpr (EAssign AAssign (reg "R" "d") (imm "s")))
+   (SCons (SDecl [TS_intN true 32] "s" (Some (num 5)))
+   (SCons (SExpr (EAssign AAssign (reg "R" "e") (imm "s"))) SNil)).
+  Example imm_local_clash_refuted :
+    (option_map cs_regw (cexecs env9 nosubs noxi 20 cs0 clash1) = Some [(RIsa "R" "d" false, 9)] /\
+     tlower cfg clash1 = OK (ESeq (ESetL "s" (PBv true 32 5)) (EWriteReg (RIsa "R" "d" false) (PVarL "s")), 0%N) /\
+     forall e h, tlower cfg clash1 = OK (e, h) ->
+       option_map rnew (exec rw (fun _ => None) 20 e (ms_of env9)) = Some [(RIsa "R" "d" false, 5)]) /\
+    (option_map cs_regw (cexecs env9 nosubs noxi 20 cs0 clash2) = Some [(RIsa "R" "e" false, 9); (RIsa "R" "d" false, 9)] /\
+     forall e h, tlower cfg clash2 = OK (e, h) ->
+       option_map rnew (exec rw (fun _ => None) 20 e (ms_of env9)) = Some [(RIsa "R" "e" false, 5); (RIsa "R" "d" false, 9)]).
+  Proof.
+    split; (split; [vm_compute; reflexivity|]).
+    - split; [vm_compute; reflexivity|]. intros e h H. vm_compute in H. injection H as <- _. vm_compute. reflexivity.
+    - intros e h H. vm_compute in H. injection H as <- _. vm_compute. reflexivity.
+  Qed.
+
+  (* ------------------------------------------------------------------ the immediate set is a parameter: only the immediates the
+     behaviour uses are reserved.  A local named like ANOTHER immediate letter of the grammar is fine:
+        int32_t n = siV + 1;  RdV = n;          (uses siV only: IM = {s}) *)
+  Definition only_s : string -> bool := fun l => String.eqb l "s".
+  Definition prog4 : cstmts :=
+    SCons (SDecl [TS_intN true 32] "n" (Some (EBin Ast.BAdd (imm "s") (num 1))))
+   (SCons (SExpr (EAssign AAssign (reg "R" "d") (var "n"))) SNil).
+  Example prog4_in_fragment : sfrags rw only_s [] prog4 [("n", Some (ty_int true 32))].
+  Proof.
+    unfold prog4.
+    eapply sfs_cons.
+    { eapply (sf_decl rw only_s [] [TS_intN true 32] true 32 "n"); [left; left; auto | reflexivity | not_reserved | ].
+      apply pf_bin; [unfold is_folding_op; auto | apply pf_imm; reflexivity | unfold num; pf]. }
+    cbn [app].
+    eapply sfs_cons; [|apply sfs_nil].
+    eapply (sf_asg_reg rw only_s _ "R" "d" AW); [left; reflexivity | reflexivity | reflexivity | unfold var; pf].
+  Qed.
+  Example prog4_simulated : forall ilsubs,
+    exists eff cs' ms', tlower cfg prog4 = OK (eff, 0%N) /\
+      cexecs env9 nosubs noxi 20 cs0 prog4 = Some cs' /\ runs rw ilsubs eff (ms_of env9) ms' /\
+      srel only_s env9 [("n", Some (ty_int true 32))] cs' ms' /\ rnew ms' = [(RIsa "R" "d" false, 10)].
+  Proof.
+    intros ilsubs.
+    assert (HIM : im_ok only_s) by (split; reflexivity).
+    destruct (tlower_correct cfg rw only_s ilsubs env9 nosubs noxi prog4 _ eq_refl eq_refl HIM prog4_in_fragment) as [eff [_ [Hl Hsim]]].
+    assert (Hc : exists cs', cexecs env9 nosubs noxi 20 cs0 prog4 = Some cs' /\ cs_regw cs' = [(RIsa "R" "d" false, 10)]).
+    { eexists. split; [vm_compute; reflexivity | reflexivity]. }
+    destruct Hc as [cs' [Hc Hr]].
+    destruct (Hsim cs0 (ms_of env9) 20%nat cs' (srel_init only_s env9) Hc) as [ms' [Hrun Hrel']].
+    exists eff, cs', ms'. repeat (split; [assumption|]).
+    destruct Hrel' as [[_ [Hregw _]] _]. congruence.
+  Qed.
+
+  (* ------------------------------------------------------------------ fifth program: accumulate into a read-write operand, a predicate result
+        RxV += RsV * RtV;            (multiply-accumulate)
+        PdV = RxV > siV;             (RxV read after its own write: the value written) *)
+  Definition prog5 : cstmts :=
+    SCons (SExpr (EAssign AAdd (reg "R" "x") (EBin Ast.BMul (reg "R" "s") (reg "R" "t"))))
+   (SCons (SExpr (EAssign AAssign (reg "P" "d") (EBin BGt (reg "R" "x") (imm "s")))) SNil).
+  Definition rw5 : regwidth := fun r => match r with RIsa "P" _ _ => 8%N | _ => 32%N end.
+  Definition env5 : cenv :=
+    mkce (fun r => if regop_eqb r (RIsa "R" "x" false) then 10 else if regop_eqb r (RIsa "R" "s" false) then 3
+                   else if regop_eqb r (RIsa "R" "t" false) then 4 else 0)
+         (fun _ => 0) (fun l => if String.eqb l "s" then 20 else 0) 0 (fun _ => 0).
+  Example prog5_in_fragment : sfrags rw5 only_s [] prog5 [].
+  Proof.
+    unfold prog5.
+    eapply sfs_cons.
+    { eapply (sf_casg_reg rw5 only_s _ AAdd "R" "x" ARW); [auto | left; reflexivity | reflexivity | reflexivity |].
+      apply pf_bin; [unfold is_folding_op; auto | | ].
+      - eapply (pf_reg _ _ _ "R" "s" AR); [left; reflexivity | reflexivity | reflexivity].
+      - eapply (pf_reg _ _ _ "R" "t" AR); [left; reflexivity | reflexivity | reflexivity]. }
+    eapply sfs_cons; [|apply sfs_nil].
+    eapply (sf_asg_reg rw5 only_s _ "P" "d" AW); [right; left; reflexivity | reflexivity | reflexivity |].
+    apply pf_bin; [unfold is_folding_op, is_cmp; auto 10 | | apply pf_imm; reflexivity].
+    eapply (pf_reg _ _ _ "R" "x" ARW); [left; reflexivity | reflexivity | reflexivity].
+  Qed.
+  Example prog5_lowered :
+    tlower cfg prog5 =
+    OK (ESeq (ESetL "s" (PImm "s" true 32))
+       (ESeq (EWriteReg (RIsa "R" "x" false)
+                (PBin RzIL.BAdd (PReg (RIsa "R" "x" false) false)
+                   (PBin RzIL.BMul (PReg (RIsa "R" "s" false) false) (PReg (RIsa "R" "t" false) false))))
+             (EWriteReg (RIsa "P" "d" false)
+                (PIte (PCmp CSgt (PReg (RIsa "R" "x" false) false) (PVarL "s")) (PBv true 8 1) (PBv true 8 0)))), 0%N).
+  Proof. vm_compute. reflexivity. Qed.
+  Example prog5_simulated : forall ilsubs,
+    exists eff cs' ms', tlower cfg prog5 = OK (eff, 0%N) /\
+      cexecs env5 nosubs noxi 20 cs0 prog5 = Some cs' /\ runs rw5 ilsubs eff (ms_of env5) ms' /\
+      srel only_s env5 [] cs' ms' /\ rnew ms' = [(RIsa "P" "d" false, 1); (RIsa "R" "x" false, 22)].
+  Proof.
+    intros ilsubs.
+    assert (HIM : im_ok only_s) by (split; reflexivity).
+    destruct (tlower_correct cfg rw5 only_s ilsubs env5 nosubs noxi prog5 _ eq_refl eq_refl HIM prog5_in_fragment) as [eff [_ [Hl Hsim]]].
+    assert (Hc : exists cs', cexecs env5 nosubs noxi 20 cs0 prog5 = Some cs' /\
+                             cs_regw cs' = [(RIsa "P" "d" false, 1); (RIsa "R" "x" false, 22)]).
+    { eexists. split; [vm_compute; reflexivity | reflexivity]. }
+    destruct Hc as [cs' [Hc Hr]].
+    destruct (Hsim cs0 (ms_of env5) 20%nat cs' (srel_init only_s env5) Hc) as [ms' [Hrun Hrel']].
+    exists eff, cs', ms'. repeat (split; [assumption|]).
+    destruct Hrel' as [[_ [Hregw _]] _]. congruence.
+  Qed.
+
+  (* Why register operands of class N are in the fragment only as .new operands (NsN).  For the (ungrammatical)
+     spelling NsV the two sides name DIFFERENT operand handles: CSem reads the old value of ISA2REG(hi,'s') of
+     class N, the model emits READ_REG(NREG2OP(bundle,'s'), false): with an old register file that tells the
+     two handles apart the values differ. *)
+  Definition envN : cenv :=
+    mkce (fun r => match r with RNreg _ => 1 | _ => 2 end) (fun _ => 0) (fun _ => 0) 0 (fun _ => 0).
+  Definition nsv : cstmts := SCons (SExpr (EAssign AAssign (reg "R" "d") (reg "N" "s"))) SNil.
+  Example nreg_not_new_refuted :
+    option_map cs_regw (cexecs envN nosubs noxi 20 cs0 nsv) = Some [(RIsa "R" "d" false, 2)] /\
+    tlower cfg nsv = OK (EWriteReg (RIsa "R" "d" false) (PReg (RNreg "s") false), 0%N) /\
+    forall e h, tlower cfg nsv = OK (e, h) ->
+      option_map rnew (exec rw (fun _ => None) 20 e (ms_of envN)) = Some [(RIsa "R" "d" false, 1)].
+  Proof.
+    split; [vm_compute; reflexivity|]. split; [vm_compute; reflexivity|].
+    intros e h H. vm_compute in H. injection H as <- _. vm_compute. reflexivity.
+  Qed.
 End Example.
 Print Assumptions Example.prog_simulated.
+Print Assumptions Example.prog2_simulated.
+Print Assumptions Example.prog3_simulated.
+Print Assumptions Example.prog4_simulated.
+Print Assumptions Example.prog5_simulated.
 Print Assumptions Example.redeclaration_counterexample.
+Print Assumptions Example.imm_local_clash_refuted.
+Print Assumptions Example.nreg_not_new_refuted.
